@@ -1,5 +1,10 @@
 /-
 Lemmas about `Cnfgen.Cli.dispatchSpec` (CnfgenModel/Cli/Dispatch.lean): totality on the modelled fragment.
+
+Part 1: the parser (`parseRaw`, `expand`, `parseArgs`) answers `.ok _` or `.error .cliError` on the fragment, for
+        every supported sub-command (standard, `php`, `compose_two_parsers`), and its bindings are typed.
+Part 2: the namespace and the evaluation of the templates; totality of `dispatchSpec` on `totalClass`.
+Part 3: totality of `dispatchSpec` beyond `totalClass` (splices of star positionals, guarded comparisons).
 -/
 import CnfgenModel.Cli.DispatchChecks
 namespace Cnfgen.Cli
@@ -12,153 +17,234 @@ def producible (o : OptSpec) (v : Val) : Prop :=
   | .one => ∃ t, convertOne o t = some v
   | .plus => ∃ k toks, v = .graph k toks
   | .star => ∃ l, v = .ints l
+  | .opt => v = o.defaultVal ∨ ∃ t, convertOne o t = some v
   | .other => False
 
 /-! ### facts about options -/
 
-theorem dtot_arity_star (o : OptSpec) (h : o.arity = .star) : o.positional = true := by
+theorem dtot_arity_pos (o : OptSpec) (h : o.arity = .star ∨ o.arity = .opt) : o.positional = true := by
   unfold OptSpec.arity at h
-  split at h
-  · split at h <;> simp at h
-  · split at h
-    · split at h <;> simp at h
-    · split at h
-      · split at h
-        · simp at h
-        · split at h
-          · simp_all
-          · simp at h
-      · split at h
-        · simp_all
-        · simp at h
+  repeat' split at h
+  all_goals simp_all
+
+theorem dtot_arity_star (o : OptSpec) (h : o.arity = .star) : o.positional = true :=
+  dtot_arity_pos o (Or.inl h)
 
 theorem dtot_arity_zero (o : OptSpec) (h : o.arity = .zero) : o.positional = false := by
   unfold OptSpec.arity at h
-  split at h
-  · split at h
-    · simp_all
-    · simp at h
-  · split at h
-    · split at h <;> simp at h
-    · split at h
-      · split at h
-        · simp at h
-        · split at h <;> simp at h
-      · split at h <;> simp at h
+  repeat' split at h
+  all_goals simp_all
+
+theorem dtot_arity_zero_action (o : OptSpec) (h : o.arity = .zero) :
+    (o.action = "store_true" ∨ o.action = "store_false") ∨ o.action = "store_const" := by
+  unfold OptSpec.arity at h
+  repeat' split at h
+  all_goals simp_all
+
+theorem dtot_arity_one_action (o : OptSpec) (h : o.arity = .one ∨ o.arity = .opt) :
+    o.action = "" ∨ o.action = "store" := by
+  unfold OptSpec.arity at h
+  repeat' split at h
+  all_goals simp_all
+
+theorem dtot_arity_plus_action (o : OptSpec) (h : o.arity = .plus) : (graphKind o.action).isSome = true := by
+  unfold OptSpec.arity at h
+  repeat' split at h
+  all_goals simp_all
+
+/-- an option of arity zero, one, optional or plus has neither of the two custom actions -/
+theorem dtot_arity_plain_action (o : OptSpec)
+    (h : o.arity = .zero ∨ o.arity = .one ∨ o.arity = .opt ∨ o.arity = .plus) :
+    o.action ≠ "PHPArgs" ∧ o.action ≠ "compose_two_parsers" := by
+  rcases h with h | h | h | h
+  · rcases dtot_arity_zero_action o h with (h | h) | h <;> rw [h] <;> decide
+  · rcases dtot_arity_one_action o (Or.inl h) with h | h <;> rw [h] <;> decide
+  · rcases dtot_arity_one_action o (Or.inr h) with h | h <;> rw [h] <;> decide
+  · have := dtot_arity_plus_action o h
+    constructor <;> intro hc <;> rw [hc] at this <;> revert this <;> decide
+
+/-- a non-positional option of known arity is a flag, takes one token, or takes a graph -/
+theorem dtot_arity_nonpos (o : OptSpec) (hp : o.positional = false) (ho : o.arity ≠ .other) :
+    o.arity = .zero ∨ o.arity = .one ∨ o.arity = .plus := by
+  cases h : o.arity with
+  | zero => exact Or.inl rfl
+  | one => exact Or.inr (Or.inl rfl)
+  | plus => exact Or.inr (Or.inr rfl)
+  | star => have := dtot_arity_pos o (Or.inl h); rw [hp] at this; cases this
+  | opt => have := dtot_arity_pos o (Or.inr h); rw [hp] at this; cases this
+  | other => exact absurd h ho
 
 theorem dtot_std (o : OptSpec) (h : o.standard = true) :
-    o.action ≠ "PHPArgs" ∧ o.arity ≠ .other := by
+    o.nested = false ∧ o.action ≠ "PHPArgs" ∧ o.action ≠ "compose_two_parsers" ∧ o.group = "" ∧
+    o.arity ≠ .other ∧ o.arity ≠ .opt := by
   unfold OptSpec.standard at h
   simp only [Bool.and_eq_true] at h
-  obtain ⟨⟨⟨⟨_, h3⟩, h4⟩, _⟩, _⟩ := h
-  refine ⟨by simpa using h3, ?_⟩
-  intro ha
-  rw [ha] at h4
-  simp at h4
+  obtain ⟨⟨⟨⟨⟨⟨⟨h1, _⟩, h3⟩, h4⟩, h5⟩, h6⟩, _⟩, _⟩ := h
+  refine ⟨by simpa using h1, by simpa using h3, by simpa using h4, by simpa using h5, ?_, ?_⟩ <;>
+  · intro ha; rw [ha] at h6; simp at h6
 
-/-- the hypotheses on an option used by the parser lemmas -/
-def dtot_good (o : OptSpec) : Prop := o.action ≠ "PHPArgs" ∧ o.arity ≠ .other
+/-! ### the actions
 
+The structural lemmas about the parser are parametrised by two facts about `bindOne` on the options in play:
+its refusals are CLIErrors (`dtot_errs`), and its bindings satisfy a relation `R` (`dtot_binds R`). -/
+
+def dtot_errs (o : OptSpec) : Prop := ∀ toks e, bindOne o toks = .error e → e = .cliError
+
+def dtot_binds (R : OptSpec → String × Val → Prop) (o : OptSpec) : Prop :=
+  ∀ toks b, bindOne o toks = .ok b → ∀ p ∈ b, R o p
+
+/-- every binding of `b` is related by `R` to one of the options `opts` -/
+def dtot_snd (R : OptSpec → String × Val → Prop) (opts : List OptSpec) (b : Ns) : Prop :=
+  ∀ p ∈ b, ∃ o ∈ opts, R o p
+
+/-- the bindings of `parseRaw`: typed by the option, except that a `compose_two_parsers` action stores tokens -/
+def dtot_prod (o : OptSpec) (p : String × Val) : Prop :=
+  o.dest = p.1 ∧ ((o.action ≠ "compose_two_parsers" ∧ producible o p.2) ∨
+    (o.action = "compose_two_parsers" ∧ ∃ l, p.2 = .toks l))
+
+def dtot_notoks (_ : OptSpec) (p : String × Val) : Prop := ∀ l, p.2 ≠ .toks l
+
+/-- the bindings of `parseArgs` (old name of the typing invariant: used by part 2) -/
 def dtot_sound (opts : List OptSpec) (b : Ns) : Prop :=
   ∀ p ∈ b, ∃ o ∈ opts, o.dest = p.1 ∧ producible o p.2
 
-theorem dtot_sound_nil (opts : List OptSpec) : dtot_sound opts [] := by
+theorem dtot_snd_nil (R : OptSpec → String × Val → Prop) (opts : List OptSpec) : dtot_snd R opts [] := by
   intro p hp; cases hp
 
-theorem dtot_sound_append {opts : List OptSpec} {a b : Ns} (ha : dtot_sound opts a)
-    (hb : dtot_sound opts b) : dtot_sound opts (a ++ b) := by
+theorem dtot_snd_append {R : OptSpec → String × Val → Prop} {opts : List OptSpec} {a b : Ns}
+    (ha : dtot_snd R opts a) (hb : dtot_snd R opts b) : dtot_snd R opts (a ++ b) := by
   intro p hp
   rcases List.mem_append.1 hp with h | h
   · exact ha p h
   · exact hb p h
 
-theorem dtot_sound_mono {o1 o2 : List OptSpec} {b : Ns} (h : ∀ o ∈ o1, o ∈ o2)
-    (hb : dtot_sound o1 b) : dtot_sound o2 b := by
+theorem dtot_snd_mono {R : OptSpec → String × Val → Prop} {o1 o2 : List OptSpec} {b : Ns}
+    (h : ∀ o ∈ o1, o ∈ o2) (hb : dtot_snd R o1 b) : dtot_snd R o2 b := by
   intro p hp
-  obtain ⟨o, ho, h1, h2⟩ := hb p hp
-  exact ⟨o, h o ho, h1, h2⟩
+  obtain ⟨o, ho, h1⟩ := hb p hp
+  exact ⟨o, h o ho, h1⟩
 
-theorem dtot_bindOne (o : OptSpec) (hg : dtot_good o) (toks : List String) :
-    (∀ e, bindOne o toks = .error e → e = .cliError) ∧
-    (∀ b, bindOne o toks = .ok b → ∀ p ∈ b, o.dest = p.1 ∧ producible o p.2) := by
-  obtain ⟨hact, hoth⟩ := hg
-  unfold bindOne
+theorem dtot_phpArgs (toks : List String) :
+    (∀ e, phpArgs toks = .error e → e = .cliError) ∧
+    (∀ b, phpArgs toks = .ok b → ∀ p ∈ b, ∀ l, p.2 ≠ .toks l) := by
+  refine ⟨fun e h => ?_, fun b h p hp l => ?_⟩
+  · unfold phpArgs at h
+    repeat' split at h
+    all_goals simp_all
+  · unfold phpArgs at h
+    repeat' split at h
+    all_goals first
+      | (simp at h; done)
+      | (simp at h; subst h; simp at hp; rcases hp with rfl | rfl | rfl <;> simp)
+      | (simp at h; subst h; simp at hp; subst hp; simp)
+
+/-- `bindOne` refuses with a CLIError only, for every option whose arity is modelled (`php`'s included) -/
+theorem dtot_bindOne_errs (o : OptSpec) (ho : o.arity ≠ .other) : dtot_errs o := by
+  intro toks e h
+  unfold bindOne at h
+  split at h
+  · exact (dtot_phpArgs toks).1 e h
+  · split at h
+    · simp at h
+    · cases har : o.arity <;> rw [har] at h <;> dsimp only at h
+      all_goals (repeat' split at h)
+      all_goals simp_all
+
+/-- `bindOne` binds the dest of the option to a value of its type (tokens for `compose_two_parsers`) -/
+theorem dtot_bindOne_binds (o : OptSpec) (hact : o.action ≠ "PHPArgs") : dtot_binds dtot_prod o := by
+  intro toks b h p hp
+  unfold bindOne at h
   have : (o.action == "PHPArgs") = false := by simpa using hact
-  simp only [this, Bool.false_eq_true, if_false]
-  cases har : o.arity with
-  | zero =>
-    dsimp only
-    constructor
-    · intro e h; simp at h
-    · intro b h p hp
-      simp at h
-      subst h
-      simp at hp
-      subst hp
-      simp [producible, har]
-  | one =>
-    dsimp only
-    constructor
-    · intro e h
-      split at h
-      · split at h <;> simp at h
-        exact h.symm
-      · simp at h; exact h.symm
-    · intro b h p hp
-      split at h
-      · rename_i t
-        split at h
-        · rename_i v hv
-          simp at h; subst h; simp at hp; subst hp
-          simp only [producible, har]
-          exact ⟨trivial, t, hv⟩
-        · simp at h
-      · simp at h
-  | plus =>
-    dsimp only
-    constructor
-    · intro e h
-      split at h
-      · simp at h
-      · simp at h; exact h.symm
-    · intro b h p hp
-      split at h
-      · rename_i k _ _ _
-        simp at h; subst h; simp at hp; subst hp
-        simp only [producible, har]
-        exact ⟨trivial, _, _, rfl⟩
-      · simp at h
-  | star =>
-    dsimp only
-    constructor
-    · intro e h
-      split at h
-      · simp at h
-      · simp at h; exact h.symm
-    · intro b h p hp
-      split at h
-      · simp at h; subst h; simp at hp; subst hp
-        simp only [producible, har]
-        exact ⟨trivial, _, rfl⟩
-      · simp at h
-  | other => exact absurd har hoth
+  simp only [this, Bool.false_eq_true, if_false] at h
+  by_cases hc : o.action = "compose_two_parsers"
+  · simp [hc] at h
+    subst h
+    simp at hp
+    subst hp
+    exact ⟨rfl, Or.inr ⟨hc, _, rfl⟩⟩
+  · have : (o.action == "compose_two_parsers") = false := by simpa using hc
+    simp only [this, Bool.false_eq_true, if_false] at h
+    refine ⟨?_, Or.inl ⟨hc, ?_⟩⟩ <;>
+    · try unfold producible
+      cases har : o.arity <;> rw [har] at h <;> dsimp only at h ⊢
+      all_goals (repeat' split at h)
+      all_goals first
+        | (simp at h; done)
+        | (simp at h; subst h; simp at hp; subst hp; simp; done)
+        | (simp at h; subst h; simp at hp; subst hp; simp_all; done)
+        | (simp at h; subst h; simp at hp; subst hp; exact ⟨_, by assumption⟩)
+        | (simp at h; subst h; simp at hp; subst hp; exact Or.inr ⟨_, by assumption⟩)
 
+theorem dtot_convertOne_plain (o : OptSpec) (t : String) (v : Val) (h : convertOne o t = some v) :
+    (∃ x, v = .str x) ∨ ∃ i, v = .int i := by
+  unfold convertOne at h
+  split at h
+  · split at h
+    · simp at h; subst h; exact Or.inl ⟨_, rfl⟩
+    · simp at h
+  · simp at h
+    obtain ⟨i, _, hi⟩ := h
+    subst hi; exact Or.inr ⟨_, rfl⟩
 
-theorem dtot_consumeOpt (o : OptSpec) (hg : dtot_good o) (hns : o.arity ≠ .star) (chunk : List String) :
+theorem dtot_constVal_notoks (e : Expr) (l : List String) : constVal e ≠ .toks l := by
+  cases e <;> simp [constVal]
+
+theorem dtot_defaultVal_notoks (o : OptSpec) (l : List String) : o.defaultVal ≠ .toks l := by
+  unfold OptSpec.defaultVal
+  repeat' split
+  all_goals first | exact dtot_constVal_notoks _ _ | simp
+
+theorem dtot_flagVal_notoks (o : OptSpec) (l : List String) : o.flagVal ≠ .toks l := by
+  unfold OptSpec.flagVal
+  repeat' split
+  all_goals first | exact dtot_constVal_notoks _ _ | simp
+
+/-- a typed value is not a token list -/
+theorem dtot_producible_notoks (o : OptSpec) (v : Val) (hp : producible o v) (l : List String) :
+    v ≠ .toks l := by
+  unfold producible at hp
+  cases har : o.arity <;> rw [har] at hp <;> dsimp only at hp
+  · rw [hp]; exact dtot_flagVal_notoks o l
+  · obtain ⟨t, ht⟩ := hp
+    rcases dtot_convertOne_plain o t v ht with ⟨x, rfl⟩ | ⟨i, rfl⟩ <;> simp
+  · obtain ⟨k, tk, rfl⟩ := hp; simp
+  · obtain ⟨k, rfl⟩ := hp; simp
+  · rcases hp with rfl | ⟨t, ht⟩
+    · exact dtot_defaultVal_notoks o l
+    · rcases dtot_convertOne_plain o t v ht with ⟨x, rfl⟩ | ⟨i, rfl⟩ <;> simp
+
+/-- only a `compose_two_parsers` action stores a token list -/
+theorem dtot_bindOne_notoks (o : OptSpec) (hact : o.action ≠ "compose_two_parsers") :
+    dtot_binds dtot_notoks o := by
+  intro toks b h p hp l
+  by_cases hphp : o.action = "PHPArgs"
+  · unfold bindOne at h
+    simp only [hphp, beq_self_eq_true, if_true] at h
+    exact (dtot_phpArgs toks).2 b h p hp l
+  · rcases (dtot_bindOne_binds o hphp toks b h p hp).2 with ⟨_, h2⟩ | ⟨h1, _⟩
+    · exact dtot_producible_notoks o p.2 h2 l
+    · exact absurd h1 hact
+
+/-! ### the parser of the sub-command -/
+
+section structural
+variable {R : OptSpec → String × Val → Prop}
+
+theorem dtot_consumeOpt (o : OptSpec) (hE : dtot_errs o) (hR : dtot_binds R o)
+    (har : o.arity = .zero ∨ o.arity = .one ∨ o.arity = .plus) (chunk : List String) :
     (∀ e, consumeOpt o chunk = .error e → e = .cliError) ∧
-    (∀ b r, consumeOpt o chunk = .ok (b, r) → ∀ p ∈ b, o.dest = p.1 ∧ producible o p.2) := by
+    (∀ b r, consumeOpt o chunk = .ok (b, r) → ∀ p ∈ b, R o p) := by
   have hmap : ∀ (toks : List String) (f : Ns → Ns × List String),
       (∀ b, (f b).1 = b) →
       (∀ e, (bindOne o toks).map f = .error e → e = .cliError) ∧
-      (∀ b r, (bindOne o toks).map f = .ok (b, r) → ∀ p ∈ b, o.dest = p.1 ∧ producible o p.2) := by
+      (∀ b r, (bindOne o toks).map f = .ok (b, r) → ∀ p ∈ b, R o p) := by
     intro toks f hf
-    have hb := dtot_bindOne o hg toks
     cases hbo : bindOne o toks with
     | error e0 =>
       constructor
       · intro e h
         have : e0 = e := by simpa [Except.map] using h
-        exact this ▸ hb.1 e0 hbo
+        exact this ▸ hE toks e0 hbo
       · intro b r h; simp [Except.map] at h
     | ok b0 =>
       constructor
@@ -166,46 +252,41 @@ theorem dtot_consumeOpt (o : OptSpec) (hg : dtot_good o) (hns : o.arity ≠ .sta
       · intro b r h
         have h' : f b0 = (b, r) := by simpa [Except.map] using h
         have : b0 = b := by have := hf b0; rw [h'] at this; exact this.symm
-        exact this ▸ hb.2 b0 hbo
+        exact this ▸ hR toks b0 hbo
   unfold consumeOpt
-  cases har : o.arity with
-  | zero => dsimp only; exact hmap _ _ (fun _ => rfl)
-  | one =>
-    dsimp only
-    cases chunk with
+  rcases har with har | har | har <;> rw [har] <;> dsimp only
+  · exact hmap _ _ (fun _ => rfl)
+  · cases chunk with
     | nil => exact ⟨fun e h => by simp at h; exact h.symm, fun b r h => by simp at h⟩
     | cons t rest => exact hmap _ _ (fun _ => rfl)
-  | plus =>
-    dsimp only
-    cases chunk with
+  · cases chunk with
     | nil => exact ⟨fun e h => by simp at h; exact h.symm, fun b r h => by simp at h⟩
     | cons t rest => exact hmap _ _ (fun _ => rfl)
-  | star => exact absurd har hns
-  | other => exact absurd har hg.2
 
-theorem dtot_applyPos (ps : List OptSpec) (hg : ∀ o ∈ ps, dtot_good o) :
+theorem dtot_applyPos (ps : List OptSpec) (hE : ∀ o ∈ ps, dtot_errs o) (hR : ∀ o ∈ ps, dtot_binds R o) :
     ∀ (cs : List Nat) (toks : List String),
     (∀ e, applyPos ps cs toks = .error e → e = .cliError) ∧
-    (∀ b, applyPos ps cs toks = .ok b → dtot_sound ps b) := by
+    (∀ b, applyPos ps cs toks = .ok b → dtot_snd R ps b) := by
   induction ps with
   | nil =>
     intro cs toks
     unfold applyPos
-    exact ⟨fun e h => by simp at h, fun b h => by simp at h; subst h; exact dtot_sound_nil _⟩
+    exact ⟨fun e h => by simp at h, fun b h => by simp at h; subst h; exact dtot_snd_nil _ _⟩
   | cons o os ih =>
     intro cs toks
     cases cs with
     | nil =>
       unfold applyPos
-      exact ⟨fun e h => by simp at h, fun b h => by simp at h; subst h; exact dtot_sound_nil _⟩
+      exact ⟨fun e h => by simp at h, fun b h => by simp at h; subst h; exact dtot_snd_nil _ _⟩
     | cons c cs =>
       unfold applyPos
-      have hb := dtot_bindOne o (hg o (List.mem_cons_self ..)) (toks.take c)
-      have ih' := ih (fun o' ho' => hg o' (List.mem_cons_of_mem _ ho')) cs (toks.drop c)
+      have ih' := ih (fun o' ho' => hE o' (List.mem_cons_of_mem _ ho'))
+        (fun o' ho' => hR o' (List.mem_cons_of_mem _ ho')) cs (toks.drop c)
       cases hbo : bindOne o (toks.take c) with
       | error e0 =>
         dsimp only
-        exact ⟨fun e h => by simp at h; exact h ▸ hb.1 e0 hbo, fun b h => by simp at h⟩
+        exact ⟨fun e h => by simp at h; exact h ▸ hE o (List.mem_cons_self ..) _ e0 hbo,
+          fun b h => by simp at h⟩
       | ok b0 =>
         dsimp only
         cases hap : applyPos os cs (toks.drop c) with
@@ -217,24 +298,24 @@ theorem dtot_applyPos (ps : List OptSpec) (hg : ∀ o ∈ ps, dtot_good o) :
           refine ⟨fun e h => by simp at h, fun b h => ?_⟩
           simp at h
           subst h
-          apply dtot_sound_append
-          · exact dtot_sound_mono (fun o' ho' => List.mem_cons_of_mem _ ho') (ih'.2 more hap)
+          apply dtot_snd_append
+          · exact dtot_snd_mono (fun o' ho' => List.mem_cons_of_mem _ ho') (ih'.2 more hap)
           · intro p hp
-            exact ⟨o, List.mem_cons_self .., hb.2 b0 hbo p hp⟩
+            exact ⟨o, List.mem_cons_self .., hR o (List.mem_cons_self ..) _ b0 hbo p hp⟩
 
-theorem dtot_consumePos (ps : List OptSpec) (hg : ∀ o ∈ ps, dtot_good o) (chunk : List String)
-    (final : Bool) :
+theorem dtot_consumePos (ps : List OptSpec) (hE : ∀ o ∈ ps, dtot_errs o) (hR : ∀ o ∈ ps, dtot_binds R o)
+    (chunk : List String) (final : Bool) :
     (∀ e, consumePos ps chunk final = .error e → e = .cliError) ∧
-    (∀ ps' b, consumePos ps chunk final = .ok (ps', b) → (∀ o ∈ ps', o ∈ ps) ∧ dtot_sound ps b) := by
+    (∀ ps' b, consumePos ps chunk final = .ok (ps', b) → (∀ o ∈ ps', o ∈ ps) ∧ dtot_snd R ps b) := by
   unfold consumePos
   split
   · exact ⟨fun e h => by simp at h, fun ps' b h => by
       simp at h; obtain ⟨h1, h2⟩ := h; subst h1; subst h2
-      exact ⟨fun o ho => ho, dtot_sound_nil _⟩⟩
+      exact ⟨fun o ho => ho, dtot_snd_nil _ _⟩⟩
   · dsimp only
     split
     · exact ⟨fun e h => by simp at h; exact h.symm, fun ps' b h => by simp at h⟩
-    · have ha := dtot_applyPos ps hg
+    · have ha := dtot_applyPos ps hE hR
         (matchPartial (ps.map OptSpec.arity) chunk.length ps.length) chunk
       cases hap : applyPos ps (matchPartial (ps.map OptSpec.arity) chunk.length ps.length) chunk with
       | error e0 =>
@@ -247,27 +328,26 @@ theorem dtot_consumePos (ps : List OptSpec) (hg : ∀ o ∈ ps, dtot_good o) (ch
         obtain ⟨h1, h2⟩ := h; subst h1; subst h2
         exact ⟨fun o ho => List.mem_of_mem_drop ho, ha.2 b0 hap⟩
 
-
-theorem dtot_parseSegs (opts : List OptSpec) (hall : ∀ o ∈ opts, dtot_good o) :
+theorem dtot_parseSegs (opts : List OptSpec) (hE : ∀ o ∈ opts, dtot_errs o)
+    (hR : ∀ o ∈ opts, dtot_binds R o) :
     ∀ (segs : List (OptSpec × List String)) (ps : List OptSpec),
     (∀ o ∈ ps, o ∈ opts) →
-    (∀ sg ∈ segs, sg.1 ∈ opts ∧ sg.1.positional = false) →
+    (∀ sg ∈ segs, sg.1 ∈ opts ∧ (sg.1.arity = .zero ∨ sg.1.arity = .one ∨ sg.1.arity = .plus)) →
     (∀ e, parseSegs ps segs = .error e → e = .cliError) ∧
-    (∀ b, parseSegs ps segs = .ok b → dtot_sound opts b) := by
+    (∀ b, parseSegs ps segs = .ok b → dtot_snd R opts b) := by
   intro segs
   induction segs with
   | nil =>
     intro ps hps _
     unfold parseSegs
     split
-    · exact ⟨fun e h => by simp at h, fun b h => by simp at h; subst h; exact dtot_sound_nil _⟩
+    · exact ⟨fun e h => by simp at h, fun b h => by simp at h; subst h; exact dtot_snd_nil _ _⟩
     · exact ⟨fun e h => by simp at h; exact h.symm, fun b h => by simp at h⟩
   | cons sg rest ih =>
     intro ps hps hsegs
     obtain ⟨o, chunk⟩ := sg
     have ho := hsegs (o, chunk) (List.mem_cons_self ..)
-    have hco := dtot_consumeOpt o (hall o ho.1)
-      (fun h => by have := dtot_arity_star o h; rw [ho.2] at this; cases this) chunk
+    have hco := dtot_consumeOpt o (hE o ho.1) (hR o ho.1) ho.2 chunk
     unfold parseSegs
     cases hc : consumeOpt o chunk with
     | error e0 =>
@@ -276,7 +356,8 @@ theorem dtot_parseSegs (opts : List OptSpec) (hall : ∀ o ∈ opts, dtot_good o
     | ok r =>
       obtain ⟨b0, chunk'⟩ := r
       dsimp only
-      have hcp := dtot_consumePos ps (fun o' ho' => hall o' (hps o' ho')) chunk' rest.isEmpty
+      have hcp := dtot_consumePos (R := R) ps (fun o' ho' => hE o' (hps o' ho'))
+        (fun o' ho' => hR o' (hps o' ho')) chunk' rest.isEmpty
       cases hp : consumePos ps chunk' rest.isEmpty with
       | error e1 =>
         dsimp only
@@ -298,9 +379,11 @@ theorem dtot_parseSegs (opts : List OptSpec) (hall : ∀ o ∈ opts, dtot_good o
           subst h
           have : more ++ (bs ++ b0) = (more ++ bs) ++ b0 := by simp
           rw [this]
-          apply dtot_sound_append (dtot_sound_append (ih'.2 more hr) (dtot_sound_mono hps hcp2.2))
+          apply dtot_snd_append (dtot_snd_append (ih'.2 more hr) (dtot_snd_mono hps hcp2.2))
           intro p hp'
           exact ⟨o, ho.1, hco.2 b0 chunk' hc p hp'⟩
+
+end structural
 
 theorem dtot_classify_opt (s : CliSpec) (t : String) (o : OptSpec) (h : classify s t = .opt o) :
     o ∈ s.opts ∧ o.positional = false := by
@@ -358,20 +441,33 @@ theorem dtot_segments (s : CliSpec) : ∀ (argv : List String),
         refine ⟨fun e _ => ?_, fun c segs h => by simp at h⟩
         simp [inFragment, hc]
 
-theorem dtot_std_good (s : CliSpec) (hstd : s.standard = true) : ∀ o ∈ s.opts, dtot_good o := by
-  unfold CliSpec.standard at hstd
-  simp only [Bool.and_eq_true] at hstd
-  obtain ⟨⟨⟨_, h2⟩, _⟩, _⟩ := hstd
-  intro o ho
-  exact dtot_std o (List.all_eq_true.1 h2 o ho)
+theorem dtot_mem_mainOpts (s : CliSpec) (o : OptSpec) : o ∈ mainOpts s ↔ o ∈ s.opts ∧ o.nested = false := by
+  unfold mainOpts
+  simp [List.mem_filter]
 
-theorem dtot_parseArgs (s : CliSpec) (hstd : s.standard = true) (argv : List String) :
-    (∀ e, parseArgs s argv = .error e → inFragment s argv = true → e = .cliError) ∧
-    (∀ b, parseArgs s argv = .ok b → dtot_sound s.opts b) := by
-  have hall := dtot_std_good s hstd
+theorem dtot_positionals_main (s : CliSpec) : ∀ o ∈ positionals s, o ∈ mainOpts s :=
+  fun _ ho => (List.mem_filter.1 ho).1
+
+/-- what the parser lemmas need of a sub-command: the options of its own parser have a modelled arity, and the
+options of the sub-parsers are positionals -/
+def dtot_mainOK (s : CliSpec) : Prop :=
+  ∀ o ∈ s.opts, (o.nested = false ∧ o.arity ≠ .other) ∨ (o.nested = true ∧ o.positional = true)
+
+/-- the parser of the sub-command itself: refusals on the fragment are CLIErrors, bindings come from `bindOne`
+of the options of the main parser -/
+theorem dtot_parseRaw {R : OptSpec → String × Val → Prop} (s : CliSpec) (hm : dtot_mainOK s)
+    (hR : ∀ o ∈ mainOpts s, dtot_binds R o) (argv : List String) :
+    (∀ e, parseRaw s argv = .error e → inFragment s argv = true → e = .cliError) ∧
+    (∀ b, parseRaw s argv = .ok b → dtot_snd R (mainOpts s) b) := by
+  have hE : ∀ o ∈ mainOpts s, dtot_errs o := by
+    intro o ho
+    obtain ⟨h1, h2⟩ := (dtot_mem_mainOpts s o).1 ho
+    rcases hm o h1 with h | h
+    · exact dtot_bindOne_errs o h.2
+    · rw [h2] at h; cases h.1
   have hseg := dtot_segments s argv
-  have hpos : ∀ o ∈ positionals s, o ∈ s.opts := fun o ho => (List.mem_filter.1 ho).1
-  unfold parseArgs
+  have hpos := dtot_positionals_main s
+  unfold parseRaw
   cases hs : segments s argv with
   | error e0 =>
     dsimp only
@@ -380,8 +476,17 @@ theorem dtot_parseArgs (s : CliSpec) (hstd : s.standard = true) (argv : List Str
   | ok r =>
     obtain ⟨chunk0, segs⟩ := r
     dsimp only
-    have hsg := hseg.2 chunk0 segs hs
-    have hcp := dtot_consumePos (positionals s) (fun o ho => hall o (hpos o ho)) chunk0 segs.isEmpty
+    split
+    · exact ⟨fun e h _ => by simp at h; exact h.symm, fun b h => by simp at h⟩
+    have hsg : ∀ sg ∈ segs, sg.1 ∈ mainOpts s ∧
+        (sg.1.arity = .zero ∨ sg.1.arity = .one ∨ sg.1.arity = .plus) := by
+      intro sg hsg
+      obtain ⟨h1, h2⟩ := hseg.2 chunk0 segs hs sg hsg
+      rcases hm sg.1 h1 with h | h
+      · exact ⟨(dtot_mem_mainOpts s sg.1).2 ⟨h1, h.1⟩, dtot_arity_nonpos sg.1 h2 h.2⟩
+      · rw [h2] at h; cases h.2
+    have hcp := dtot_consumePos (R := R) (positionals s) (fun o ho => hE o (hpos o ho))
+      (fun o ho => hR o (hpos o ho)) chunk0 segs.isEmpty
     cases hp : consumePos (positionals s) chunk0 segs.isEmpty with
     | error e1 =>
       dsimp only
@@ -390,7 +495,7 @@ theorem dtot_parseArgs (s : CliSpec) (hstd : s.standard = true) (argv : List Str
       obtain ⟨ps, b0⟩ := r2
       dsimp only
       have hcp2 := hcp.2 ps b0 hp
-      have hps := dtot_parseSegs s.opts hall segs ps (fun o ho => hpos o (hcp2.1 o ho)) hsg
+      have hps := dtot_parseSegs (R := R) (mainOpts s) hE hR segs ps (fun o ho => hpos o (hcp2.1 o ho)) hsg
       cases hr : parseSegs ps segs with
       | error e2 =>
         dsimp only
@@ -401,8 +506,195 @@ theorem dtot_parseArgs (s : CliSpec) (hstd : s.standard = true) (argv : List Str
         · refine ⟨fun e h _ => by simp at h, fun b h => ?_⟩
           simp at h
           subst h
-          exact dtot_sound_append (hps.2 more hr) (dtot_sound_mono hpos hcp2.2)
+          exact dtot_snd_append (hps.2 more hr) (dtot_snd_mono hpos hcp2.2)
         · exact ⟨fun e h _ => by simp at h; exact h.symm, fun b h => by simp at h⟩
+
+/-! ### `compose_two_parsers` -/
+
+/-- without token lists there is nothing to expand -/
+theorem dtot_expand_notoks (s : CliSpec) : ∀ (b : Ns), (∀ p ∈ b, ∀ l, p.2 ≠ .toks l) → expand s b = .ok b
+  | [], _ => by simp [expand]
+  | (d, v) :: rest, h => by
+    have ih := dtot_expand_notoks s rest (fun p hp => h p (List.mem_cons_of_mem _ hp))
+    have hv := h (d, v) (List.mem_cons_self ..)
+    cases v <;> simp_all [expand]
+
+/-- the typing invariant of the final bindings of a composed sub-command -/
+def dtot_csound (opts : List OptSpec) (b : Ns) : Prop :=
+  ∀ p ∈ b, ∃ o ∈ opts, o.dest = p.1 ∧ producible o p.2 ∧ o.action ≠ "compose_two_parsers"
+
+/-- what `expand` needs: a composed action names two sub-parsers, and the options of the sub-parsers are
+typed positionals -/
+def dtot_subOK (s : CliSpec) : Prop :=
+  ∀ o ∈ s.opts,
+    (o.nested = false → o.action = "compose_two_parsers" → o.compose.length = 2) ∧
+    (o.nested = true → o.arity ≠ .other ∧ o.action ≠ "PHPArgs" ∧ o.action ≠ "compose_two_parsers")
+
+theorem dtot_composeParse (s : CliSpec) (hs : dtot_subOK s) (o : OptSpec) (ho : o ∈ s.opts)
+    (hn : o.nested = false) (ha : o.action = "compose_two_parsers") (toks : List String) :
+    (∀ e, composeParse s o toks = .error e → e = .cliError) ∧
+    (∀ b, composeParse s o toks = .ok b → dtot_csound s.opts b) := by
+  have hlen := (hs o ho).1 hn ha
+  have hsub : ∀ p, ∀ o' ∈ subPositionals s p, o' ∈ s.opts ∧ o'.nested = true := by
+    intro p o' ho'
+    unfold subPositionals at ho'
+    obtain ⟨h1, h2⟩ := List.mem_filter.1 ho'
+    simp only [Bool.and_eq_true] at h2
+    exact ⟨h1, h2.1.1⟩
+  have hcp : ∀ p, _ := fun p => dtot_consumePos (R := dtot_prod) (subPositionals s p)
+    (fun o' ho' => dtot_bindOne_errs o' ((hs o' (hsub p o' ho').1).2 (hsub p o' ho').2).1)
+    (fun o' ho' => dtot_bindOne_binds o' ((hs o' (hsub p o' ho').1).2 (hsub p o' ho').2).2.1) toks true
+  unfold composeParse
+  match hco : o.compose, toks with
+  | [p1, p2], t :: tl =>
+    dsimp only
+    have hcp' := hcp (if pyFloatOk t then p1 else p2)
+    cases hc : consumePos (subPositionals s (if pyFloatOk t then p1 else p2)) (t :: tl) true with
+    | error e0 =>
+      dsimp only
+      exact ⟨fun e h => by simp at h; exact h ▸ hcp'.1 e0 hc, fun b h => by simp at h⟩
+    | ok r =>
+      obtain ⟨rest, b0⟩ := r
+      dsimp only
+      split
+      · refine ⟨fun e h => by simp at h, fun b h => ?_⟩
+        simp at h
+        subst h
+        intro p hp
+        obtain ⟨o', ho', hd, hpr⟩ := (hcp'.2 rest b0 hc).2 p hp
+        have hsb := hsub _ o' ho'
+        have hnc := ((hs o' hsb.1).2 hsb.2).2.2
+        rcases hpr with ⟨_, h2⟩ | ⟨h1, _⟩
+        · exact ⟨o', hsb.1, hd, h2, hnc⟩
+        · exact absurd h1 hnc
+      · exact ⟨fun e h => by simp at h; exact h.symm, fun b h => by simp at h⟩
+  | [_, _], [] => exact ⟨fun e h => by simp at h; exact h.symm, fun b h => by simp at h⟩
+  | [], _ => rw [hco] at hlen; simp at hlen
+  | [_], _ => rw [hco] at hlen; simp at hlen
+  | _ :: _ :: _ :: _, _ => rw [hco] at hlen; simp at hlen
+
+theorem dtot_composeOpt (s : CliSpec) (d : String) (o : OptSpec) (ho : o ∈ s.opts) (hd : o.dest = d)
+    (ha : o.action = "compose_two_parsers") (hn : o.nested = false) :
+    ∃ o', composeOpt s d = some o' ∧ o' ∈ s.opts ∧ o'.dest = d ∧ o'.action = "compose_two_parsers" ∧
+      o'.nested = false := by
+  unfold composeOpt
+  cases hf : s.opts.find? (fun o => o.dest == d && o.action == "compose_two_parsers" && !o.nested) with
+  | none =>
+    have := List.find?_eq_none.1 hf o ho
+    simp [hd, ha, hn] at this
+  | some o' =>
+    have h1 := List.find?_some hf
+    simp only [Bool.and_eq_true, beq_iff_eq, Bool.not_eq_true'] at h1
+    exact ⟨o', rfl, List.mem_of_find?_eq_some hf, h1.1.1, h1.1.2, h1.2⟩
+
+theorem dtot_expand_cons_plain (s : CliSpec) (d : String) (v : Val) (rest : Ns) (hnt : ∀ l, v ≠ .toks l) :
+    expand s ((d, v) :: rest) =
+      (match expand s rest with | .error e => .error e | .ok more => .ok ((d, v) :: more)) := by
+  cases v
+  case toks l => exact absurd rfl (hnt l)
+  all_goals (simp only [expand]; cases expand s rest <;> rfl)
+
+/-- the sub-parses refuse with a CLIError only, and their bindings are typed -/
+theorem dtot_expand (s : CliSpec) (hs : dtot_subOK s) : ∀ (b : Ns), dtot_snd dtot_prod (mainOpts s) b →
+    (∀ e, expand s b = .error e → e = .cliError) ∧ (∀ b', expand s b = .ok b' → dtot_csound s.opts b')
+  | [], _ => by
+    simp only [expand]
+    exact ⟨fun e h => by simp at h, fun b' h => by simp at h; subst h; intro p hp; cases hp⟩
+  | (d, v) :: rest, hb => by
+    have ih := dtot_expand s hs rest (fun p hp => hb p (List.mem_cons_of_mem _ hp))
+    obtain ⟨o, ho, hd, hv⟩ := hb (d, v) (List.mem_cons_self ..)
+    obtain ⟨ho1, ho2⟩ := (dtot_mem_mainOpts s o).1 ho
+    have hkeep := dtot_expand_cons_plain s d v rest
+    have hplain : (∀ l, v ≠ .toks l) →
+        (∀ e, expand s ((d, v) :: rest) = .error e → e = .cliError) ∧
+        (∀ b', expand s ((d, v) :: rest) = .ok b' → dtot_csound s.opts b') := by
+      intro hnt
+      rw [hkeep hnt]
+      cases hr : expand s rest with
+      | error e0 => exact ⟨fun e h => by simp at h; exact h ▸ ih.1 e0 hr, fun b' h => by simp at h⟩
+      | ok more =>
+        refine ⟨fun e h => by simp at h, fun b' h => ?_⟩
+        simp at h
+        subst h
+        intro p hp
+        rcases List.mem_cons.1 hp with rfl | hp
+        · rcases hv with ⟨h1, h2⟩ | ⟨_, l, hl⟩
+          · exact ⟨o, ho1, hd, h2, h1⟩
+          · exact absurd hl (hnt l)
+        · exact ih.2 more hr p hp
+    rcases hv with ⟨h1, h2⟩ | ⟨ha, l, hl⟩
+    · exact hplain (fun l => dtot_producible_notoks o v h2 l)
+    · dsimp only at hl hd
+      subst hl
+      obtain ⟨o', hco, ho'1, _, ho'a, ho'n⟩ := dtot_composeOpt s d o ho1 hd ha ho2
+      have hcp := dtot_composeParse s hs o' ho'1 ho'n ho'a l
+      simp only [expand, hco]
+      cases hc : composeParse s o' l with
+      | error e0 => exact ⟨fun e h => by simp at h; exact h ▸ hcp.1 e0 hc, fun b' h => by simp at h⟩
+      | ok inner =>
+        dsimp only
+        cases hr : expand s rest with
+        | error e0 => exact ⟨fun e h => by simp at h; exact h ▸ ih.1 e0 hr, fun b' h => by simp at h⟩
+        | ok more =>
+          refine ⟨fun e h => by simp at h, fun b' h => ?_⟩
+          simp at h
+          subst h
+          intro p hp
+          rcases List.mem_append.1 hp with hp | hp
+          · exact hcp.2 inner hc p hp
+          · exact ih.2 more hr p hp
+
+/-! ### the three classes of supported sub-commands -/
+
+theorem dtot_std_opts (s : CliSpec) (hstd : s.standard = true) : ∀ o ∈ s.opts, o.standard = true := by
+  unfold CliSpec.standard at hstd
+  simp only [Bool.and_eq_true] at hstd
+  exact List.all_eq_true.1 hstd.1.1.2
+
+theorem dtot_std_mainOK (s : CliSpec) (hstd : s.standard = true) : dtot_mainOK s := by
+  intro o ho
+  have := dtot_std o (dtot_std_opts s hstd o ho)
+  exact Or.inl ⟨this.1, this.2.2.2.2.1⟩
+
+/-- a standard sub-command has no sub-parser -/
+theorem dtot_std_main (s : CliSpec) (hstd : s.standard = true) : mainOpts s = s.opts := by
+  unfold mainOpts
+  apply List.filter_eq_self.2
+  intro o ho
+  simp [(dtot_std o (dtot_std_opts s hstd o ho)).1]
+
+/-- for a standard sub-command there is nothing to expand: `parseArgs` is the parser of the sub-command itself -/
+theorem dtot_parseArgs_raw (s : CliSpec) (hstd : s.standard = true) (argv : List String) :
+    parseArgs s argv = parseRaw s argv := by
+  unfold parseArgs
+  cases h : parseRaw s argv with
+  | error e => rfl
+  | ok b =>
+    dsimp only
+    apply dtot_expand_notoks
+    intro p hp l
+    have hR : ∀ o ∈ mainOpts s, dtot_binds dtot_notoks o := by
+      intro o ho
+      rw [dtot_std_main s hstd] at ho
+      exact dtot_bindOne_notoks o (dtot_std o (dtot_std_opts s hstd o ho)).2.2.1
+    obtain ⟨o, _, ho⟩ := (dtot_parseRaw s (dtot_std_mainOK s hstd) hR argv).2 b h p hp
+    exact ho l
+
+theorem dtot_parseArgs (s : CliSpec) (hstd : s.standard = true) (argv : List String) :
+    (∀ e, parseArgs s argv = .error e → inFragment s argv = true → e = .cliError) ∧
+    (∀ b, parseArgs s argv = .ok b → dtot_sound s.opts b) := by
+  rw [dtot_parseArgs_raw s hstd argv]
+  have hR : ∀ o ∈ mainOpts s, dtot_binds dtot_prod o := by
+    intro o ho
+    rw [dtot_std_main s hstd] at ho
+    exact dtot_bindOne_binds o (dtot_std o (dtot_std_opts s hstd o ho)).2.1
+  have hp := dtot_parseRaw s (dtot_std_mainOK s hstd) hR argv
+  refine ⟨hp.1, fun b h p hp' => ?_⟩
+  obtain ⟨o, ho, hd, hv⟩ := hp.2 b h p hp'
+  rw [dtot_std_main s hstd] at ho
+  rcases hv with ⟨_, h2⟩ | ⟨h1, _⟩
+  · exact ⟨o, ho, hd, h2⟩
+  · exact absurd h1 (dtot_std o (dtot_std_opts s hstd o ho)).2.2.1
 
 /-- the parser of a sub-command with standard options answers on every command line of the fragment, and
 refuses only with a CLIError -/
@@ -418,6 +710,153 @@ theorem parseArgs_bindings_sound (s : CliSpec) (hstd : s.standard = true) (argv 
     (h : parseArgs s argv = .ok b) :
     ∀ p ∈ b, ∃ o ∈ s.opts, o.dest = p.1 ∧ producible o p.2 :=
   (dtot_parseArgs s hstd argv).2 b h
+
+/-! #### `php` -/
+
+theorem dtot_special_opts (s : CliSpec) (hsp : s.special = true) :
+    ∀ o ∈ s.opts, (o.action = "PHPArgs" ∧ o.arity = .star ∧ o.nested = false) ∨ o.standard = true := by
+  unfold CliSpec.special at hsp
+  simp only [Bool.and_eq_true] at hsp
+  intro o ho
+  have := List.all_eq_true.1 hsp.1.1.2 o ho
+  simpa [and_assoc] using this
+
+theorem dtot_parseArgs_special (s : CliSpec) (hsp : s.special = true) (argv : List String) :
+    ∀ e, parseArgs s argv = .error e → inFragment s argv = true → e = .cliError := by
+  have hopts := dtot_special_opts s hsp
+  have hm : dtot_mainOK s := by
+    intro o ho
+    rcases hopts o ho with ⟨_, h2, h3⟩ | h
+    · exact Or.inl ⟨h3, by rw [h2]; simp⟩
+    · have := dtot_std o h
+      exact Or.inl ⟨this.1, this.2.2.2.2.1⟩
+  have hR : ∀ o ∈ mainOpts s, dtot_binds dtot_notoks o := by
+    intro o ho
+    apply dtot_bindOne_notoks
+    rcases hopts o ((dtot_mem_mainOpts s o).1 ho).1 with ⟨h1, _⟩ | h
+    · rw [h1]; decide
+    · exact (dtot_std o h).2.2.1
+  have hp := dtot_parseRaw s hm hR argv
+  intro e h hf
+  unfold parseArgs at h
+  cases hr : parseRaw s argv with
+  | error e0 =>
+    rw [hr] at h
+    simp at h
+    exact h ▸ hp.1 e0 hr hf
+  | ok b =>
+    rw [hr] at h
+    dsimp only at h
+    rw [dtot_expand_notoks s b (fun p hp' l => by
+      obtain ⟨o, _, ho⟩ := hp.2 b hr p hp'
+      exact ho l)] at h
+    simp at h
+
+/-! #### `compose_two_parsers` -/
+
+theorem dtot_composed_opts (s : CliSpec) (hc : s.composed = true) :
+    ∀ o ∈ s.opts, o.standard = true ∨ groupedFlag o = true ∨ subOption s o = true ∨ composeOption o = true := by
+  unfold CliSpec.composed at hc
+  simp only [Bool.and_eq_true] at hc
+  intro o ho
+  have := List.all_eq_true.1 hc.1.1.2 o ho
+  simpa [or_assoc] using this
+
+theorem dtot_groupedFlag (o : OptSpec) (h : groupedFlag o = true) : o.nested = false ∧ o.arity = .zero := by
+  unfold groupedFlag at h
+  simp only [Bool.and_eq_true] at h
+  obtain ⟨⟨⟨⟨⟨⟨h1, _⟩, h3⟩, _⟩, _⟩, _⟩, _⟩ := h
+  exact ⟨by simpa using h1, by simpa using h3⟩
+
+theorem dtot_subOption (s : CliSpec) (o : OptSpec) (h : subOption s o = true) :
+    o.nested = true ∧ o.positional = true ∧ (o.arity = .one ∨ o.arity = .opt ∨ o.arity = .plus) := by
+  unfold subOption at h
+  simp only [Bool.and_eq_true] at h
+  obtain ⟨⟨⟨⟨⟨⟨h1, h2⟩, _⟩, _⟩, _⟩, _⟩, h7⟩ := h
+  refine ⟨h1, h2, ?_⟩
+  cases har : o.arity <;> rw [har] at h7 <;> simp at h7 ⊢
+
+theorem dtot_composeOption (o : OptSpec) (h : composeOption o = true) :
+    o.nested = false ∧ o.action = "compose_two_parsers" ∧ o.arity = .star ∧ o.compose.length = 2 := by
+  unfold composeOption at h
+  simp only [Bool.and_eq_true] at h
+  obtain ⟨⟨⟨⟨⟨⟨h1, _⟩, _⟩, h4⟩, h5⟩, h6⟩, _⟩ := h
+  exact ⟨by simpa using h1, by simpa using h4, by simpa using h5, by simpa using h6⟩
+
+theorem dtot_composed_mainOK (s : CliSpec) (hc : s.composed = true) : dtot_mainOK s := by
+  intro o ho
+  rcases dtot_composed_opts s hc o ho with h | h | h | h
+  · have := dtot_std o h
+    exact Or.inl ⟨this.1, this.2.2.2.2.1⟩
+  · have := dtot_groupedFlag o h
+    exact Or.inl ⟨this.1, by rw [this.2]; simp⟩
+  · have := dtot_subOption s o h
+    exact Or.inr ⟨this.1, this.2.1⟩
+  · have := dtot_composeOption o h
+    exact Or.inl ⟨this.1, by rw [this.2.2.1]; simp⟩
+
+theorem dtot_composed_subOK (s : CliSpec) (hc : s.composed = true) : dtot_subOK s := by
+  intro o ho
+  rcases dtot_composed_opts s hc o ho with h | h | h | h
+  · have := dtot_std o h
+    exact ⟨fun _ ha => absurd ha this.2.2.1, fun hn => by rw [this.1] at hn; cases hn⟩
+  · have := dtot_groupedFlag o h
+    exact ⟨fun _ ha => absurd ha (dtot_arity_plain_action o (Or.inl this.2)).2,
+      fun hn => by rw [this.1] at hn; cases hn⟩
+  · obtain ⟨h1, _, h3⟩ := dtot_subOption s o h
+    refine ⟨fun hn => (by rw [h1] at hn; cases hn), fun _ => ?_⟩
+    have ha := dtot_arity_plain_action o (Or.inr h3)
+    refine ⟨?_, ha.1, ha.2⟩
+    rcases h3 with h3 | h3 | h3 <;> rw [h3] <;> simp
+  · have := dtot_composeOption o h
+    exact ⟨fun _ _ => this.2.2.2, fun hn => by rw [this.1] at hn; cases hn⟩
+
+theorem dtot_composed_binds (s : CliSpec) (hc : s.composed = true) :
+    ∀ o ∈ mainOpts s, dtot_binds dtot_prod o := by
+  intro o ho
+  apply dtot_bindOne_binds
+  rcases dtot_composed_opts s hc o ((dtot_mem_mainOpts s o).1 ho).1 with h | h | h | h
+  · exact (dtot_std o h).2.1
+  · exact (dtot_arity_plain_action o (Or.inl (dtot_groupedFlag o h).2)).1
+  · exact (dtot_arity_plain_action o (Or.inr (dtot_subOption s o h).2.2)).1
+  · rw [(dtot_composeOption o h).2.1]; decide
+
+theorem dtot_parseArgs_composed (s : CliSpec) (hc : s.composed = true) (argv : List String) :
+    (∀ e, parseArgs s argv = .error e → inFragment s argv = true → e = .cliError) ∧
+    (∀ b, parseArgs s argv = .ok b → dtot_csound s.opts b) := by
+  have hp := dtot_parseRaw s (dtot_composed_mainOK s hc) (dtot_composed_binds s hc) argv
+  unfold parseArgs
+  cases hr : parseRaw s argv with
+  | error e0 =>
+    dsimp only
+    exact ⟨fun e h hf => by simp at h; exact h ▸ hp.1 e0 hr hf, fun b h => by simp at h⟩
+  | ok b0 =>
+    dsimp only
+    have he := dtot_expand s (dtot_composed_subOK s hc) b0 (hp.2 b0 hr)
+    exact ⟨fun e h _ => he.1 e h, he.2⟩
+
+/-- the parser of EVERY supported sub-command (standard options, `php`, `compose_two_parsers`) answers on every
+command line of the fragment, and refuses only with a CLIError -/
+theorem parseArgs_total_supported (s : CliSpec) (hsup : s.supported = true) (argv : List String)
+    (hf : inFragment s argv = true) :
+    (∃ b, parseArgs s argv = .ok b) ∨ parseArgs s argv = .error .cliError := by
+  cases h : parseArgs s argv with
+  | ok b => exact Or.inl ⟨b, rfl⟩
+  | error e =>
+    right
+    unfold CliSpec.supported at hsup
+    simp only [Bool.or_eq_true] at hsup
+    rcases hsup with (hs | hs) | hs
+    · rw [(dtot_parseArgs s hs argv).1 e h hf]
+    · rw [dtot_parseArgs_special s hs argv e h hf]
+    · rw [(dtot_parseArgs_composed s hs argv).1 e h hf]
+
+/-- the bindings of a sub-command with a `compose_two_parsers` action are typed by its options — those of its
+own parser and those of the sub-parser chosen — and no token list is left in the namespace -/
+theorem parseArgs_bindings_sound_composed (s : CliSpec) (hc : s.composed = true) (argv : List String) (b : Ns)
+    (h : parseArgs s argv = .ok b) :
+    ∀ p ∈ b, ∃ o ∈ s.opts, o.dest = p.1 ∧ producible o p.2 ∧ o.action ≠ "compose_two_parsers" :=
+  (dtot_parseArgs_composed s hc argv).2 b h
 
 /-! ### the namespace -/
 
@@ -478,9 +917,10 @@ theorem dtot_ns_lookup (s : CliSpec) (b : Ns) (hb : dtot_sound s.opts b) (d : St
     unfold defaults at this
     obtain ⟨o, ho, he⟩ := List.mem_map.1 this
     simp at he
-    exact ⟨o, dtot_mem_optsFor s d o ho he.1, Or.inr he.2.symm⟩
+    exact ⟨o, dtot_mem_optsFor s d o ((dtot_mem_mainOpts s o).1 ho).1 he.1, Or.inr he.2.symm⟩
 
-theorem dtot_ns_some (s : CliSpec) (b : Ns) (d : String) (h : (optsFor s d).isEmpty = false) :
+theorem dtot_ns_some (s : CliSpec) (hmain : mainOpts s = s.opts) (b : Ns) (d : String)
+    (h : (optsFor s d).isEmpty = false) :
     ∃ v, (namespaceOf s b).lookup d = some v := by
   unfold namespaceOf
   rw [List.lookup_append]
@@ -496,7 +936,7 @@ theorem dtot_ns_some (s : CliSpec) (b : Ns) (d : String) (h : (optsFor s d).isEm
       have hd : o.dest = d := by simpa using hm2
       have : (d, o.defaultVal) ∈ defaults s := by
         unfold defaults
-        exact List.mem_map.2 ⟨o, hm1, by simp [hd]⟩
+        exact List.mem_map.2 ⟨o, hmain ▸ hm1, by simp [hd]⟩
       obtain ⟨v', hv'⟩ := dtot_lookup_some _ d _ this
       exact ⟨v', by simp [hv']⟩
 
@@ -506,13 +946,13 @@ theorem dtot_producible_zero (o : OptSpec) (v : Val) (hp : producible o v) (hz :
   rw [hz] at hp
   exact hp
 
-theorem dtot_pureFlag (s : CliSpec) (b : Ns) (hb : dtot_sound s.opts b) (d : String)
+theorem dtot_pureFlag (s : CliSpec) (hm : mainOpts s = s.opts) (b : Ns) (hb : dtot_sound s.opts b) (d : String)
     (h : pureFlag s d = true) :
     ∃ v, (namespaceOf s b).lookup d = some v ∧ ∃ t, truthy v = some t := by
   unfold pureFlag at h
   simp only [Bool.and_eq_true] at h
   obtain ⟨h1, h2⟩ := h
-  obtain ⟨v, hv⟩ := dtot_ns_some s b d (by simpa using h1)
+  obtain ⟨v, hv⟩ := dtot_ns_some s hm b d (by simpa using h1)
   refine ⟨v, hv, ?_⟩
   obtain ⟨o, ho, hor⟩ := dtot_ns_lookup s b hb d v hv
   have h3 := List.all_eq_true.1 h2 o ho
@@ -525,23 +965,21 @@ theorem dtot_pureFlag (s : CliSpec) (b : Ns) (hb : dtot_sound s.opts b) (d : Str
   · rw [hdv]
     exact Option.isSome_iff_exists.1 ht2
 
-theorem dtot_convertOne_plain (o : OptSpec) (t : String) (v : Val) (h : convertOne o t = some v) :
+theorem dtot_convertOne_plainVal (o : OptSpec) (t : String) (v : Val) (h : convertOne o t = some v) :
     plainVal v = true := by
-  unfold convertOne at h
-  split at h
-  · split at h
-    · simp at h; subst h; rfl
-    · simp at h
-  · simp at h
-    obtain ⟨i, _, hi⟩ := h
-    subst hi; rfl
+  rcases dtot_convertOne_plain o t v h with ⟨x, rfl⟩ | ⟨i, rfl⟩ <;> rfl
 
 theorem dtot_producible_plain (o : OptSpec) (v : Val) (hp : producible o v)
-    (hf : plainVal o.flagVal = true) : plainVal v = true := by
+    (hf : plainVal o.flagVal = true) (hd : plainVal o.defaultVal = true) : plainVal v = true := by
   unfold producible at hp
   cases har : o.arity with
   | zero => rw [har] at hp; dsimp only at hp; rw [hp]; exact hf
-  | one => rw [har] at hp; dsimp only at hp; obtain ⟨t, ht⟩ := hp; exact dtot_convertOne_plain o t v ht
+  | one => rw [har] at hp; dsimp only at hp; obtain ⟨t, ht⟩ := hp; exact dtot_convertOne_plainVal o t v ht
+  | opt =>
+    rw [har] at hp; dsimp only at hp
+    rcases hp with rfl | ⟨t, ht⟩
+    · exact hd
+    · exact dtot_convertOne_plainVal o t v ht
   | plus => rw [har] at hp; dsimp only at hp; obtain ⟨k, toks, h⟩ := hp; subst h; rfl
   | star => rw [har] at hp; dsimp only at hp; obtain ⟨l, h⟩ := hp; subst h; rfl
   | other => rw [har] at hp; exact hp.elim
@@ -556,16 +994,16 @@ theorem dtot_plain_lookup (s : CliSpec) (b : Ns) (hb : dtot_sound s.opts b) (d :
   have h3 := List.all_eq_true.1 h o ho
   simp only [Bool.and_eq_true] at h3
   rcases hor with hp | hdv
-  · exact dtot_producible_plain o v hp h3.1
+  · exact dtot_producible_plain o v hp h3.1 h3.2
   · rw [hdv]; exact h3.2
 
-theorem dtot_valueTotal (s : CliSpec) (b : Ns) (hb : dtot_sound s.opts b) (e : Expr)
+theorem dtot_valueTotal (s : CliSpec) (hm : mainOpts s = s.opts) (b : Ns) (hb : dtot_sound s.opts b) (e : Expr)
     (h : valueTotal s e = true) :
     ∃ v, evalE (namespaceOf s b) e = some v ∧ plainVal v = true := by
   induction e with
   | arg d =>
     simp only [valueTotal, plainDest, Bool.and_eq_true] at h
-    obtain ⟨v, hv⟩ := dtot_ns_some s b d (by simpa using h.1)
+    obtain ⟨v, hv⟩ := dtot_ns_some s hm b d (by simpa using h.1)
     exact ⟨v, by simp only [evalE]; exact hv, dtot_plain_lookup s b hb d v h.2 hv⟩
   | getattr d e ih =>
     simp only [valueTotal, Bool.and_eq_true] at h
@@ -579,14 +1017,14 @@ theorem dtot_valueTotal (s : CliSpec) (b : Ns) (hb : dtot_sound s.opts b) (e : E
   | str _ => exact ⟨_, rfl, rfl⟩
   | _ => simp [valueTotal] at h
 
-theorem dtot_guardTotal (s : CliSpec) (b : Ns) (hb : dtot_sound s.opts b) (g : Expr)
+theorem dtot_guardTotal (s : CliSpec) (hm : mainOpts s = s.opts) (b : Ns) (hb : dtot_sound s.opts b) (g : Expr)
     (h : guardTotal s g = true) :
     ∃ v, evalE (namespaceOf s b) g = some v ∧ ∃ t, truthy v = some t := by
   induction g with
   | bool c => exact ⟨_, rfl, _, rfl⟩
   | arg d =>
     simp only [guardTotal] at h
-    simpa only [evalE] using dtot_pureFlag s b hb d h
+    simpa only [evalE] using dtot_pureFlag s hm b hb d h
   | hasattr d => exact ⟨_, rfl, _, rfl⟩
   | not e ih =>
     simp only [guardTotal] at h
@@ -610,19 +1048,19 @@ theorem dtot_guardTotal (s : CliSpec) (b : Ns) (hb : dtot_sound s.opts b) (g : E
       exact ⟨vy, by simp [evalE, hvx, htx, hvy], _, hty⟩
   | isNone e _ =>
     simp only [guardTotal] at h
-    obtain ⟨v, hv, hp⟩ := dtot_valueTotal s b hb e h
+    obtain ⟨v, hv, hp⟩ := dtot_valueTotal s hm b hb e h
     obtain ⟨c, hc⟩ := dtot_plain_isNone v hp
     exact ⟨.bool c, by simp [evalE, hv, hc], _, rfl⟩
   | isNotNone e _ =>
     simp only [guardTotal] at h
-    obtain ⟨v, hv, hp⟩ := dtot_valueTotal s b hb e h
+    obtain ⟨v, hv, hp⟩ := dtot_valueTotal s hm b hb e h
     obtain ⟨c, hc⟩ := dtot_plain_isNone v hp
     exact ⟨.bool (!c), by simp [evalE, hv, hc], _, rfl⟩
   | _ => simp [guardTotal] at h
 
-theorem dtot_evalGuard (s : CliSpec) (b : Ns) (hb : dtot_sound s.opts b) (g : Expr)
+theorem dtot_evalGuard (s : CliSpec) (hm : mainOpts s = s.opts) (b : Ns) (hb : dtot_sound s.opts b) (g : Expr)
     (h : guardTotal s g = true) : ∃ t, evalGuard (namespaceOf s b) g = some t := by
-  obtain ⟨v, hv, t, ht⟩ := dtot_guardTotal s b hb g h
+  obtain ⟨v, hv, t, ht⟩ := dtot_guardTotal s hm b hb g h
   exact ⟨t, by simp [evalGuard, hv, ht]⟩
 
 theorem dtot_evalGuard_not (ns : Ns) (g : Expr) (t : Bool) (h : evalGuard ns g = some t) :
@@ -632,14 +1070,14 @@ theorem dtot_evalGuard_not (ns : Ns) (g : Expr) (t : Bool) (h : evalGuard ns g =
   rfl
 
 
-theorem dtot_argTotal (s : CliSpec) (b : Ns) (hb : dtot_sound s.opts b) (e : Expr)
+theorem dtot_argTotal (s : CliSpec) (hm : mainOpts s = s.opts) (b : Ns) (hb : dtot_sound s.opts b) (e : Expr)
     (h : argTotal s e = true) :
     (∃ v, evalE (namespaceOf s b) e = some v) ∧ ∀ e', e ≠ .star e' := by
   induction e with
   | arg d =>
     simp only [argTotal] at h
     refine ⟨?_, fun e' he => by cases he⟩
-    simpa only [evalE] using dtot_ns_some s b d (by simpa using h)
+    simpa only [evalE] using dtot_ns_some s hm b d (by simpa using h)
   | name _ => exact ⟨⟨_, rfl⟩, fun e' he => by cases he⟩
   | none => exact ⟨⟨_, rfl⟩, fun e' he => by cases he⟩
   | bool _ => exact ⟨⟨_, rfl⟩, fun e' he => by cases he⟩
@@ -651,7 +1089,7 @@ theorem dtot_argTotal (s : CliSpec) (b : Ns) (hb : dtot_sound s.opts b) (e : Exp
     cases e with
     | arg d =>
       simp only [argTotal] at h
-      obtain ⟨v, hv, t, ht⟩ := dtot_pureFlag s b hb d h
+      obtain ⟨v, hv, t, ht⟩ := dtot_pureFlag s hm b hb d h
       exact ⟨.bool (!t), by simp [evalE, hv, ht]⟩
     | _ => simp [argTotal] at h
   | ite c x y _ ihx ihy =>
@@ -659,7 +1097,7 @@ theorem dtot_argTotal (s : CliSpec) (b : Ns) (hb : dtot_sound s.opts b) (e : Exp
     cases c with
     | arg d =>
       simp only [argTotal, Bool.and_eq_true] at h
-      obtain ⟨v, hv, t, ht⟩ := dtot_pureFlag s b hb d h.1.1
+      obtain ⟨v, hv, t, ht⟩ := dtot_pureFlag s hm b hb d h.1.1
       cases t with
       | true =>
         obtain ⟨w, hw⟩ := (ihx h.1.2).1
@@ -670,14 +1108,14 @@ theorem dtot_argTotal (s : CliSpec) (b : Ns) (hb : dtot_sound s.opts b) (e : Exp
     | _ => simp [argTotal] at h
   | _ => simp [argTotal] at h
 
-theorem dtot_evalPos (s : CliSpec) (b : Ns) (hb : dtot_sound s.opts b) (es : List Expr)
+theorem dtot_evalPos (s : CliSpec) (hm : mainOpts s = s.opts) (b : Ns) (hb : dtot_sound s.opts b) (es : List Expr)
     (h : es.all (argTotal s) = true) : ∃ vs, evalPos (namespaceOf s b) es = some vs := by
   induction es with
   | nil => exact ⟨_, rfl⟩
   | cons e rest ih =>
     simp only [List.all_cons, Bool.and_eq_true] at h
     obtain ⟨vs, hvs⟩ := ih h.2
-    obtain ⟨⟨v, hv⟩, hns⟩ := dtot_argTotal s b hb e h.1
+    obtain ⟨⟨v, hv⟩, hns⟩ := dtot_argTotal s hm b hb e h.1
     unfold evalPos
     rw [hv, hvs]
     dsimp only
@@ -686,7 +1124,7 @@ theorem dtot_evalPos (s : CliSpec) (b : Ns) (hb : dtot_sound s.opts b) (es : Lis
     · exact absurd rfl (hns _)
     · exact ⟨_, rfl⟩
 
-theorem dtot_evalKw (s : CliSpec) (b : Ns) (hb : dtot_sound s.opts b) (kw : List (String × Expr))
+theorem dtot_evalKw (s : CliSpec) (hm : mainOpts s = s.opts) (b : Ns) (hb : dtot_sound s.opts b) (kw : List (String × Expr))
     (h : kw.all (fun p => argTotal s p.2) = true) : ∃ vs, evalKw (namespaceOf s b) kw = some vs := by
   induction kw with
   | nil => exact ⟨_, rfl⟩
@@ -694,7 +1132,7 @@ theorem dtot_evalKw (s : CliSpec) (b : Ns) (hb : dtot_sound s.opts b) (kw : List
     obtain ⟨k, e⟩ := p
     simp only [List.all_cons, Bool.and_eq_true] at h
     obtain ⟨vs, hvs⟩ := ih h.2
-    obtain ⟨⟨v, hv⟩, _⟩ := dtot_argTotal s b hb e h.1
+    obtain ⟨⟨v, hv⟩, _⟩ := dtot_argTotal s hm b hb e h.1
     unfold evalKw
     rw [hv, hvs]
     exact ⟨_, rfl⟩
@@ -773,6 +1211,7 @@ theorem dtot_dispatch_ok (s : CliSpec) (ht : totalClass s = true) (argv : List S
   simp only [Bool.and_eq_true] at ht
   obtain ⟨⟨hstd, hall⟩, hpe⟩ := ht
   have hb : dtot_sound s.opts b := parseArgs_bindings_sound s hstd argv b h
+  have hm := dtot_std_main s hstd
   have hall' := List.all_eq_true.1 hall
   have hok : ∀ t ∈ s.templates, templateOK t = true := by
     have := hstd
@@ -782,7 +1221,7 @@ theorem dtot_dispatch_ok (s : CliSpec) (ht : totalClass s = true) (argv : List S
   obtain ⟨t, htm, hsel⟩ := dtot_select (namespaceOf s b) s.templates (fun t htm => by
     have := hall' t htm
     simp only [Bool.and_eq_true] at this
-    exact dtot_evalGuard s b hb t.guard this.1.1.1) hpe
+    exact dtot_evalGuard s hm b hb t.guard this.1.1.1) hpe
   have ht4 := hall' t htm
   simp only [Bool.and_eq_true] at ht4
   obtain ⟨⟨⟨_, hr⟩, hpos⟩, hkw⟩ := ht4
@@ -793,8 +1232,8 @@ theorem dtot_dispatch_ok (s : CliSpec) (ht : totalClass s = true) (argv : List S
     rw [hsel]
     rfl
   rw [hd]
-  rcases dtot_instantiate (namespaceOf s b) t hr (hok t htm) (dtot_evalPos s b hb t.pos hpos)
-    (dtot_evalKw s b hb t.kw hkw) with ⟨_, hc⟩ | ⟨hne, he⟩
+  rcases dtot_instantiate (namespaceOf s b) t hr (hok t htm) (dtot_evalPos s hm b hb t.pos hpos)
+    (dtot_evalKw s hm b hb t.kw hkw) with ⟨_, hc⟩ | ⟨hne, he⟩
   · exact Or.inl hc
   · exact Or.inr ⟨he, t, htm, hne⟩
 
@@ -833,5 +1272,608 @@ theorem dispatchSpec_error_iff_parse_error (s : CliSpec) (ht : totalClass s = tr
       constructor <;> intro h <;> cases h
     · have := List.all_eq_true.1 hnr t htm
       exact absurd (by simpa using this) hne
+
+/-! ### part 3: totality beyond `totalClass` -/
+
+/-- the action of `o` binds the dest of `o` -/
+def dtot_bindsDest (o : OptSpec) : Prop := ∀ toks b, bindOne o toks = .ok b → ∃ v, (o.dest, v) ∈ b
+
+theorem dtot_bindOne_dest (o : OptSpec) (hact : o.action ≠ "PHPArgs") : dtot_bindsDest o := by
+  intro toks b h
+  unfold bindOne at h
+  have : (o.action == "PHPArgs") = false := by simpa using hact
+  simp only [this, Bool.false_eq_true, if_false] at h
+  split at h
+  · simp at h; subst h; exact ⟨_, List.mem_cons_self ..⟩
+  · cases har : o.arity <;> rw [har] at h <;> dsimp only at h
+    all_goals (repeat' split at h)
+    all_goals first
+      | (simp at h; done)
+      | (simp at h; subst h; exact ⟨_, List.mem_cons_self ..⟩)
+
+theorem dtot_applyPos_bound (ps : List OptSpec) (hB : ∀ o ∈ ps, dtot_bindsDest o) :
+    ∀ (cs : List Nat) (toks : List String) (b : Ns), applyPos ps cs toks = .ok b →
+    ∀ o ∈ ps.take cs.length, ∃ v, (o.dest, v) ∈ b := by
+  induction ps with
+  | nil => intro cs toks b _ o ho; simp at ho
+  | cons o1 os ih =>
+    intro cs toks b h o ho
+    cases cs with
+    | nil => simp at ho
+    | cons c cs =>
+      unfold applyPos at h
+      split at h
+      · simp at h
+      · rename_i b0 hb0
+        split at h
+        · simp at h
+        · rename_i more hmore
+          simp at h
+          subst h
+          simp only [List.length_cons, List.take_succ_cons] at ho
+          rcases List.mem_cons.1 ho with rfl | ho
+          · obtain ⟨v, hv⟩ := hB o (List.mem_cons_self ..) _ b0 hb0
+            exact ⟨v, List.mem_append_right _ hv⟩
+          · obtain ⟨v, hv⟩ := ih (fun o' ho' => hB o' (List.mem_cons_of_mem _ ho')) cs _ more hmore o ho
+            exact ⟨v, List.mem_append_left _ hv⟩
+
+theorem dtot_consumePos_bound (ps : List OptSpec) (hB : ∀ o ∈ ps, dtot_bindsDest o) (chunk : List String)
+    (final : Bool) (ps' : List OptSpec) (b : Ns) (h : consumePos ps chunk final = .ok (ps', b)) :
+    (∀ o ∈ ps', o ∈ ps) ∧ ∀ o ∈ ps, o ∈ ps' ∨ ∃ v, (o.dest, v) ∈ b := by
+  unfold consumePos at h
+  split at h
+  · simp at h
+    obtain ⟨rfl, rfl⟩ := h
+    exact ⟨fun o ho => ho, fun o ho => Or.inl ho⟩
+  · dsimp only at h
+    split at h
+    · simp at h
+    · split at h
+      · simp at h
+      · rename_i b0 hb0
+        simp at h
+        obtain ⟨rfl, rfl⟩ := h
+        refine ⟨fun o ho => List.mem_of_mem_drop ho, fun o ho => ?_⟩
+        rw [← List.take_append_drop (matchPartial (ps.map OptSpec.arity) chunk.length ps.length).length ps] at ho
+        rcases List.mem_append.1 ho with ho | ho
+        · exact Or.inr (dtot_applyPos_bound ps hB _ _ _ hb0 o ho)
+        · exact Or.inl ho
+
+theorem dtot_parseSegs_bound : ∀ (segs : List (OptSpec × List String)) (ps : List OptSpec) (b : Ns),
+    (∀ o ∈ ps, dtot_bindsDest o) → parseSegs ps segs = .ok b → ∀ o ∈ ps, ∃ v, (o.dest, v) ∈ b := by
+  intro segs
+  induction segs with
+  | nil =>
+    intro ps b _ h o ho
+    unfold parseSegs at h
+    split at h
+    · rename_i he
+      simp at he
+      subst he
+      cases ho
+    · simp at h
+  | cons sg rest ih =>
+    intro ps b hB h o ho
+    obtain ⟨o1, chunk⟩ := sg
+    unfold parseSegs at h
+    split at h
+    · simp at h
+    · rename_i b1 chunk' _
+      split at h
+      · simp at h
+      · rename_i ps' bs hcp
+        split at h
+        · simp at h
+        · rename_i more hmore
+          simp at h
+          subst h
+          obtain ⟨hsub, hor⟩ := dtot_consumePos_bound ps hB chunk' _ ps' bs hcp
+          rcases hor o ho with ho' | ⟨v, hv⟩
+          · obtain ⟨v, hv⟩ := ih ps' more (fun o' ho' => hB o' (hsub o' ho')) hmore o ho'
+            exact ⟨v, List.mem_append_left _ hv⟩
+          · exact ⟨v, List.mem_append_right _ (List.mem_append_left _ hv)⟩
+
+/-- when the parser of the sub-command accepts the command line, every positional of the sub-command is bound -/
+theorem dtot_parseRaw_bound (s : CliSpec) (hB : ∀ o ∈ positionals s, dtot_bindsDest o) (argv : List String)
+    (b : Ns) (h : parseRaw s argv = .ok b) : ∀ o ∈ positionals s, ∃ v, (o.dest, v) ∈ b := by
+  intro o ho
+  unfold parseRaw at h
+  split at h
+  · simp at h
+  · rename_i chunk0 segs _
+    split at h
+    · simp at h
+    · split at h
+      · simp at h
+      · rename_i ps b0 hcp
+        split at h
+        · simp at h
+        · rename_i more hmore
+          dsimp only at h
+          split at h
+          · simp at h
+            subst h
+            obtain ⟨hsub, hor⟩ := dtot_consumePos_bound (positionals s) hB chunk0 _ ps b0 hcp
+            rcases hor o ho with ho' | ⟨v, hv⟩
+            · obtain ⟨v, hv⟩ := dtot_parseSegs_bound segs ps more (fun o' ho' => hB o' (hsub o' ho')) hmore o ho'
+              exact ⟨v, List.mem_append_left _ hv⟩
+            · exact ⟨v, List.mem_append_right _ hv⟩
+          · simp at h
+
+/-- a standard sub-command binds every one of its positionals whenever it accepts the command line -/
+theorem dtot_positionals_bound (s : CliSpec) (hstd : s.standard = true) (argv : List String) (b : Ns)
+    (h : parseArgs s argv = .ok b) : ∀ o ∈ positionals s, ∃ v, (o.dest, v) ∈ b := by
+  rw [dtot_parseArgs_raw s hstd argv] at h
+  refine dtot_parseRaw_bound s (fun o ho => ?_) argv b h
+  have ho' := dtot_positionals_main s o ho
+  rw [dtot_std_main s hstd] at ho'
+  exact dtot_bindOne_dest o (dtot_std o (dtot_std_opts s hstd o ho')).2.1
+
+/-- the value the namespace gives to the dest of a positional comes from the command line (not from a
+default), and is typed by an option with that dest -/
+theorem dtot_bound_lookup (s : CliSpec) (hstd : s.standard = true) (argv : List String) (b : Ns)
+    (h : parseArgs s argv = .ok b) (d : String) (o : OptSpec) (ho : o ∈ optsFor s d)
+    (hpos : o.positional = true) :
+    ∃ v o', (namespaceOf s b).lookup d = some v ∧ o' ∈ optsFor s d ∧ producible o' v := by
+  unfold optsFor at ho
+  obtain ⟨ho1, ho2⟩ := List.mem_filter.1 ho
+  have hd : o.dest = d := by simpa using ho2
+  have hp : o ∈ positionals s := by
+    unfold positionals
+    rw [dtot_std_main s hstd]
+    exact List.mem_filter.2 ⟨ho1, hpos⟩
+  obtain ⟨v0, hv0⟩ := dtot_positionals_bound s hstd argv b h o hp
+  rw [hd] at hv0
+  obtain ⟨v, hv⟩ := dtot_lookup_some b d v0 hv0
+  obtain ⟨o', ho', hd', hp'⟩ := parseArgs_bindings_sound s hstd argv b h _ (dtot_lookup_mem b d v hv)
+  refine ⟨v, o', ?_, dtot_mem_optsFor s d o' ho' hd', hp'⟩
+  unfold namespaceOf
+  rw [List.lookup_append, hv]
+  rfl
+
+theorem dtot_convertOne_int (o : OptSpec) (t : String) (v : Val) (hty : o.ty ≠ "")
+    (h : convertOne o t = some v) : ∃ i, v = .int i := by
+  unfold convertOne at h
+  have : (o.ty == "") = false := by simpa using hty
+  simp only [this, Bool.false_eq_true, if_false] at h
+  simp at h
+  obtain ⟨i, _, hi⟩ := h
+  exact ⟨i, hi.symm⟩
+
+/-! #### typed dests -/
+
+/-- `d` is set by positionals taking one integer token: always bound, to an integer -/
+def dtot_intBound (s : CliSpec) (d : String) : Bool :=
+  !(optsFor s d).isEmpty && (optsFor s d).all (fun o => o.arity == .one && o.ty != "" && o.positional)
+
+/-- `d` is set by options taking one integer token, whose default is `None` or an integer -/
+def dtot_intOrNone (s : CliSpec) (d : String) : Bool :=
+  !(optsFor s d).isEmpty && (optsFor s d).all (fun o => o.arity == .one && o.ty != "" &&
+    (match o.defaultVal with | .none => true | .int _ => true | _ => false))
+
+/-- `d` is set by star positionals (typed `nargs='*'`): always bound, to a list of integers -/
+def dtot_starDest (s : CliSpec) (d : String) : Bool :=
+  !(optsFor s d).isEmpty && (optsFor s d).all (fun o => o.arity == .star)
+
+theorem dtot_optsFor_head (s : CliSpec) (d : String) (h : (!(optsFor s d).isEmpty) = true) :
+    ∃ o, o ∈ optsFor s d := by
+  cases ho : optsFor s d with
+  | nil => rw [ho] at h; simp at h
+  | cons o rest => exact ⟨o, List.mem_cons_self ..⟩
+
+theorem dtot_intBound_val (s : CliSpec) (hstd : s.standard = true) (argv : List String) (b : Ns)
+    (h : parseArgs s argv = .ok b) (d : String) (hd : dtot_intBound s d = true) :
+    ∃ i, (namespaceOf s b).lookup d = some (.int i) := by
+  unfold dtot_intBound at hd
+  simp only [Bool.and_eq_true] at hd
+  obtain ⟨o, ho⟩ := dtot_optsFor_head s d hd.1
+  have hall := List.all_eq_true.1 hd.2
+  have h1 := hall o ho
+  simp only [Bool.and_eq_true] at h1
+  obtain ⟨v, o', hv, ho', hp⟩ := dtot_bound_lookup s hstd argv b h d o ho h1.2
+  have h2 := hall o' ho'
+  simp only [Bool.and_eq_true] at h2
+  obtain ⟨⟨har, hty⟩, _⟩ := h2
+  have har' : o'.arity = .one := by simpa using har
+  unfold producible at hp
+  rw [har'] at hp
+  obtain ⟨t, ht⟩ := hp
+  obtain ⟨i, rfl⟩ := dtot_convertOne_int o' t v (by simpa using hty) ht
+  exact ⟨i, hv⟩
+
+theorem dtot_starDest_val (s : CliSpec) (hstd : s.standard = true) (argv : List String) (b : Ns)
+    (h : parseArgs s argv = .ok b) (d : String) (hd : dtot_starDest s d = true) :
+    ∃ l, (namespaceOf s b).lookup d = some (.ints l) := by
+  unfold dtot_starDest at hd
+  simp only [Bool.and_eq_true] at hd
+  obtain ⟨o, ho⟩ := dtot_optsFor_head s d hd.1
+  have hall := List.all_eq_true.1 hd.2
+  have h1 : o.arity = .star := by simpa using hall o ho
+  obtain ⟨v, o', hv, ho', hp⟩ := dtot_bound_lookup s hstd argv b h d o ho (dtot_arity_star o h1)
+  have h2 : o'.arity = .star := by simpa using hall o' ho'
+  unfold producible at hp
+  rw [h2] at hp
+  obtain ⟨l, rfl⟩ := hp
+  exact ⟨l, hv⟩
+
+theorem dtot_intOrNone_val (s : CliSpec) (hstd : s.standard = true) (argv : List String) (b : Ns)
+    (h : parseArgs s argv = .ok b) (d : String) (hd : dtot_intOrNone s d = true) :
+    ∃ v, (namespaceOf s b).lookup d = some v ∧ (v = .none ∨ ∃ i, v = .int i) := by
+  unfold dtot_intOrNone at hd
+  simp only [Bool.and_eq_true] at hd
+  obtain ⟨v, hv⟩ := dtot_ns_some s (dtot_std_main s hstd) b d (by simpa using hd.1)
+  refine ⟨v, hv, ?_⟩
+  obtain ⟨o, ho, hor⟩ := dtot_ns_lookup s b (parseArgs_bindings_sound s hstd argv b h) d v hv
+  have h1 := List.all_eq_true.1 hd.2 o ho
+  simp only [Bool.and_eq_true] at h1
+  obtain ⟨⟨har, hty⟩, hdf⟩ := h1
+  rcases hor with hp | rfl
+  · have har' : o.arity = .one := by simpa using har
+    unfold producible at hp
+    rw [har'] at hp
+    obtain ⟨t, ht⟩ := hp
+    exact Or.inr (dtot_convertOne_int o t v (by simpa using hty) ht)
+  · cases hdv : o.defaultVal <;> rw [hdv] at hdf <;> simp at hdf
+    · exact Or.inl rfl
+    · exact Or.inr ⟨_, rfl⟩
+
+/-! #### guards that compare integer options, tested only after `is not None` -/
+
+def dtot_cmpOps : List String := ["==", "!=", "<", "<=", ">", ">="]
+
+/-- the options that are not `None` when the guard holds -/
+def dtot_facts : Expr → List String
+  | .isNotNone (.arg d) => [d]
+  | .and a b => dtot_facts a ++ dtot_facts b
+  | _ => []
+
+/-- the value of `d` is an integer, given that the options `known` are not `None` -/
+def dtot_intIn (s : CliSpec) (known : List String) (d : String) : Bool :=
+  dtot_intBound s d || (dtot_intOrNone s d && known.contains d)
+
+/-- `guardTotal`, plus comparisons between integer options; the right operand of `and` is evaluated only when
+the left one holds, so it may use the options the left one has tested against `None` -/
+def dtot_guardTotalX (s : CliSpec) : Expr → List String → Bool
+  | .cmp op (.arg a) (.arg b), known =>
+    dtot_cmpOps.contains op && dtot_intIn s known a && dtot_intIn s known b
+  | .and x y, known => dtot_guardTotalX s x known && dtot_guardTotalX s y (dtot_facts x ++ known)
+  | .not e, known => dtot_guardTotalX s e known
+  | e, _ => guardTotal s e
+
+/-- the options `known` are not `None` in the namespace -/
+def dtot_knows (ns : Ns) (known : List String) : Prop := ∀ d ∈ known, ∀ v, ns.lookup d = some v → v ≠ .none
+
+theorem dtot_evalGuard_and (ns : Ns) (a c : Expr) :
+    evalGuard ns (.and a c) =
+      (match evalGuard ns a with
+       | none => none
+       | some false => some false
+       | some true => evalGuard ns c) := by
+  unfold evalGuard
+  simp only [evalE]
+  cases ha : evalE ns a with
+  | none => rfl
+  | some va =>
+    cases ht : truthy va with
+    | none => simp [ht]
+    | some t => cases t <;> simp [ht]
+
+theorem dtot_evalCmp_int (op : String) (x y : Int) (h : dtot_cmpOps.contains op = true) :
+    ∃ c, evalCmp op (.int x) (.int y) = some c := by
+  simp [dtot_cmpOps] at h
+  rcases h with rfl | rfl | rfl | rfl | rfl | rfl <;> simp [evalCmp, valEq]
+  exact Decidable.em _
+
+theorem dtot_intIn_val (s : CliSpec) (hstd : s.standard = true) (argv : List String) (b : Ns)
+    (h : parseArgs s argv = .ok b) (known : List String) (hk : dtot_knows (namespaceOf s b) known)
+    (d : String) (hd : dtot_intIn s known d = true) :
+    ∃ i, (namespaceOf s b).lookup d = some (.int i) := by
+  unfold dtot_intIn at hd
+  simp only [Bool.or_eq_true, Bool.and_eq_true] at hd
+  rcases hd with hd | ⟨hd, hkn⟩
+  · exact dtot_intBound_val s hstd argv b h d hd
+  · obtain ⟨v, hv, hor⟩ := dtot_intOrNone_val s hstd argv b h d hd
+    rcases hor with rfl | ⟨i, rfl⟩
+    · exact absurd rfl (hk d (by simpa using hkn) _ hv)
+    · exact ⟨i, hv⟩
+
+theorem dtot_guardTotalX_eval (s : CliSpec) (hstd : s.standard = true) (argv : List String) (b : Ns)
+    (h : parseArgs s argv = .ok b) (g : Expr) :
+    ∀ known, dtot_guardTotalX s g known = true → dtot_knows (namespaceOf s b) known →
+    ∃ t, evalGuard (namespaceOf s b) g = some t ∧ (t = true → dtot_knows (namespaceOf s b) (dtot_facts g)) := by
+  have hm := dtot_std_main s hstd
+  have hb : dtot_sound s.opts b := parseArgs_bindings_sound s hstd argv b h
+  have fallback : ∀ e, dtot_facts e = [] → guardTotal s e = true →
+      ∃ t, evalGuard (namespaceOf s b) e = some t ∧ (t = true → dtot_knows (namespaceOf s b) (dtot_facts e)) := by
+    intro e hfe hg
+    obtain ⟨t, ht⟩ := dtot_evalGuard s hm b hb e hg
+    exact ⟨t, ht, fun _ d hd => by rw [hfe] at hd; cases hd⟩
+  induction g with
+  | cmp op x y _ _ =>
+    intro known hg hk
+    cases x with
+    | arg a =>
+      cases y with
+      | arg c =>
+        simp only [dtot_guardTotalX, Bool.and_eq_true] at hg
+        obtain ⟨i, hi⟩ := dtot_intIn_val s hstd argv b h known hk a hg.1.2
+        obtain ⟨j, hj⟩ := dtot_intIn_val s hstd argv b h known hk c hg.2
+        obtain ⟨r, hr⟩ := dtot_evalCmp_int op i j hg.1.1
+        refine ⟨r, ?_, fun _ d hd => by simp [dtot_facts] at hd⟩
+        simp [evalGuard, evalE, hi, hj, hr, truthy]
+      | _ => simp [dtot_guardTotalX, guardTotal] at hg
+    | _ => simp [dtot_guardTotalX, guardTotal] at hg
+  | and x y ihx ihy =>
+    intro known hg hk
+    simp only [dtot_guardTotalX, Bool.and_eq_true] at hg
+    obtain ⟨tx, htx, hfx⟩ := ihx known hg.1 hk
+    rw [dtot_evalGuard_and, htx]
+    cases tx with
+    | false => exact ⟨false, rfl, fun hc => by cases hc⟩
+    | true =>
+      have hk' : dtot_knows (namespaceOf s b) (dtot_facts x ++ known) := by
+        intro d hd
+        rcases List.mem_append.1 hd with hd | hd
+        · exact hfx rfl d hd
+        · exact hk d hd
+      obtain ⟨ty, hty, hfy⟩ := ihy _ hg.2 hk'
+      refine ⟨ty, hty, fun hc d hd => ?_⟩
+      simp only [dtot_facts] at hd
+      rcases List.mem_append.1 hd with hd | hd
+      · exact hfx rfl d hd
+      · exact hfy hc d hd
+  | not e ih =>
+    intro known hg hk
+    simp only [dtot_guardTotalX] at hg
+    obtain ⟨t, ht, _⟩ := ih known hg hk
+    exact ⟨!t, dtot_evalGuard_not _ e t ht, fun _ d hd => by simp [dtot_facts] at hd⟩
+  | isNotNone e _ =>
+    intro known hg hk
+    cases e with
+    | arg d =>
+      have hg' : guardTotal s (.isNotNone (.arg d)) = true := by simpa [dtot_guardTotalX] using hg
+      obtain ⟨t, ht⟩ := dtot_evalGuard s hm b hb _ hg'
+      refine ⟨t, ht, fun hc d' hd' v hv hn => ?_⟩
+      simp only [dtot_facts, List.mem_singleton] at hd'
+      subst hd' hc hn
+      simp [evalGuard, evalE, hv, isNoneV, truthy] at ht
+    | _ => exact fallback _ (by simp [dtot_facts]) (by simpa [dtot_guardTotalX] using hg)
+  | _ =>
+    intro known hg hk
+    exact fallback _ (by simp [dtot_facts]) (by simpa [dtot_guardTotalX] using hg)
+
+/-! #### arguments with a splice, three-way paths, and the extended class -/
+
+/-- `argTotal`, plus `*args.d` for a star positional `d` -/
+def dtot_argTotalX (s : CliSpec) : Expr → Bool
+  | .star (.arg d) => dtot_starDest s d
+  | e => argTotal s e
+
+/-- `pathsExhaustive`, plus: `if a: (if c: … else: …) else: …` -/
+def dtot_pathsExhaustiveX : List CallTemplate → Bool
+  | [t1, t2, t3] =>
+    (match t1.guard with
+     | .and a c => t2.guard == .and a (.not c) && t3.guard == .not a
+     | _ => false)
+  | ts => pathsExhaustive ts
+
+/-- sub-commands with standard options for which `dispatchSpec` is proved total: `totalClass`, extended with
+comparisons between integer options in the guards (`stone`), splices of star positionals in the calls (`vdw`),
+and helpers with three paths (`stone`) -/
+def totalClassExt (s : CliSpec) : Bool :=
+  s.standard &&
+  s.templates.all (fun t =>
+    dtot_guardTotalX s t.guard [] && (t.raises == "" || shielded t.raises) &&
+    t.pos.all (dtot_argTotalX s) && t.kw.all (fun p => dtot_argTotalX s p.2)) &&
+  dtot_pathsExhaustiveX s.templates
+
+theorem dtot_argTotalX_eval (s : CliSpec) (hstd : s.standard = true) (argv : List String) (b : Ns)
+    (h : parseArgs s argv = .ok b) (e : Expr) (he : dtot_argTotalX s e = true) :
+    ∃ v, evalE (namespaceOf s b) e = some v ∧ ∀ e', e = .star e' → ∃ l, v = .ints l := by
+  have hm := dtot_std_main s hstd
+  have hb : dtot_sound s.opts b := parseArgs_bindings_sound s hstd argv b h
+  have fallback : ∀ e, argTotal s e = true →
+      ∃ v, evalE (namespaceOf s b) e = some v ∧ ∀ e', e = .star e' → ∃ l, v = .ints l := by
+    intro e he
+    obtain ⟨⟨v, hv⟩, hns⟩ := dtot_argTotal s hm b hb e he
+    exact ⟨v, hv, fun e' he' => absurd he' (hns e')⟩
+  cases e with
+  | star e' =>
+    cases e' with
+    | arg d =>
+      simp only [dtot_argTotalX] at he
+      obtain ⟨l, hl⟩ := dtot_starDest_val s hstd argv b h d he
+      exact ⟨.ints l, by simp only [evalE]; exact hl, fun _ _ => ⟨l, rfl⟩⟩
+    | _ => simp [dtot_argTotalX, argTotal] at he
+  | _ => exact fallback _ (by simpa [dtot_argTotalX] using he)
+
+theorem dtot_evalPosX (s : CliSpec) (hstd : s.standard = true) (argv : List String) (b : Ns)
+    (h : parseArgs s argv = .ok b) (es : List Expr) (hes : es.all (dtot_argTotalX s) = true) :
+    ∃ vs, evalPos (namespaceOf s b) es = some vs := by
+  induction es with
+  | nil => exact ⟨_, rfl⟩
+  | cons e rest ih =>
+    simp only [List.all_cons, Bool.and_eq_true] at hes
+    obtain ⟨vs, hvs⟩ := ih hes.2
+    obtain ⟨v, hv, hst⟩ := dtot_argTotalX_eval s hstd argv b h e hes.1
+    unfold evalPos
+    rw [hv, hvs]
+    dsimp only
+    split
+    · exact ⟨_, rfl⟩
+    · rename_i e' hne
+      obtain ⟨l, hl⟩ := hst _ rfl
+      exact absurd hl (hne l)
+    · exact ⟨_, rfl⟩
+
+theorem dtot_evalKwX (s : CliSpec) (hstd : s.standard = true) (argv : List String) (b : Ns)
+    (h : parseArgs s argv = .ok b) (kw : List (String × Expr))
+    (hkw : kw.all (fun p => dtot_argTotalX s p.2) = true) : ∃ vs, evalKw (namespaceOf s b) kw = some vs := by
+  induction kw with
+  | nil => exact ⟨_, rfl⟩
+  | cons p rest ih =>
+    obtain ⟨k, e⟩ := p
+    simp only [List.all_cons, Bool.and_eq_true] at hkw
+    obtain ⟨vs, hvs⟩ := ih hkw.2
+    obtain ⟨v, hv, _⟩ := dtot_argTotalX_eval s hstd argv b h e hkw.1
+    unfold evalKw
+    rw [hv, hvs]
+    exact ⟨_, rfl⟩
+
+theorem dtot_selectX (ns : Ns) (ts : List CallTemplate)
+    (hg : ∀ t ∈ ts, ∃ c, evalGuard ns t.guard = some c) (hp : dtot_pathsExhaustiveX ts = true) :
+    ∃ t ∈ ts, selectTemplate ns ts = .ok t := by
+  match ts, hg, hp with
+  | [], hg, hp => exact dtot_select ns _ hg (by simpa [dtot_pathsExhaustiveX] using hp)
+  | [_], hg, hp => exact dtot_select ns _ hg (by simpa [dtot_pathsExhaustiveX] using hp)
+  | [_, _], hg, hp => exact dtot_select ns _ hg (by simpa [dtot_pathsExhaustiveX] using hp)
+  | _ :: _ :: _ :: _ :: _, hg, hp => exact dtot_select ns _ hg (by simpa [dtot_pathsExhaustiveX] using hp)
+  | [t1, t2, t3], hg, hp =>
+    simp only [dtot_pathsExhaustiveX] at hp
+    split at hp
+    · rename_i a c hg1
+      simp only [Bool.and_eq_true, beq_iff_eq] at hp
+      obtain ⟨hg2, hg3⟩ := hp
+      obtain ⟨c1, hc1⟩ := hg t1 (List.mem_cons_self ..)
+      rw [hg1, dtot_evalGuard_and] at hc1
+      cases ha : evalGuard ns a with
+      | none => rw [ha] at hc1; simp at hc1
+      | some ta =>
+        rw [ha] at hc1
+        cases ta with
+        | false =>
+          refine ⟨t3, by simp, ?_⟩
+          have e1 : evalGuard ns t1.guard = some false := by rw [hg1, dtot_evalGuard_and, ha]
+          have e2 : evalGuard ns t2.guard = some false := by rw [hg2, dtot_evalGuard_and, ha]
+          have e3 : evalGuard ns t3.guard = some true := by rw [hg3]; exact dtot_evalGuard_not ns a false ha
+          simp [selectTemplate, e1, e2, e3]
+        | true =>
+          dsimp only at hc1
+          cases c1 with
+          | true =>
+            refine ⟨t1, by simp, ?_⟩
+            have e1 : evalGuard ns t1.guard = some true := by rw [hg1, dtot_evalGuard_and, ha]; exact hc1
+            simp [selectTemplate, e1]
+          | false =>
+            refine ⟨t2, by simp, ?_⟩
+            have e1 : evalGuard ns t1.guard = some false := by rw [hg1, dtot_evalGuard_and, ha]; exact hc1
+            have e2 : evalGuard ns t2.guard = some true := by
+              rw [hg2, dtot_evalGuard_and, ha]; exact dtot_evalGuard_not ns c false hc1
+            simp [selectTemplate, e1, e2]
+    · simp at hp
+
+theorem dtot_totalClassExt_std (s : CliSpec) (ht : totalClassExt s = true) : s.standard = true := by
+  unfold totalClassExt at ht
+  simp only [Bool.and_eq_true] at ht
+  exact ht.1.1
+
+theorem dtot_dispatch_okX (s : CliSpec) (ht : totalClassExt s = true) (argv : List String) (b : Ns)
+    (h : parseArgs s argv = .ok b) :
+    (∃ c, dispatchSpec s argv = .ok c) ∨
+    (dispatchSpec s argv = .error .cliError ∧ ∃ t ∈ s.templates, t.raises ≠ "") := by
+  unfold totalClassExt at ht
+  simp only [Bool.and_eq_true] at ht
+  obtain ⟨⟨hstd, hall⟩, hpe⟩ := ht
+  have hall' := List.all_eq_true.1 hall
+  have hok : ∀ t ∈ s.templates, templateOK t = true := by
+    have := hstd
+    unfold CliSpec.standard at this
+    simp only [Bool.and_eq_true] at this
+    exact List.all_eq_true.1 this.2
+  obtain ⟨t, htm, hsel⟩ := dtot_selectX (namespaceOf s b) s.templates (fun t htm => by
+    have := hall' t htm
+    simp only [Bool.and_eq_true] at this
+    obtain ⟨c, hc, _⟩ := dtot_guardTotalX_eval s hstd argv b h t.guard [] this.1.1.1
+      (fun d hd => by cases hd)
+    exact ⟨c, hc⟩) hpe
+  have ht4 := hall' t htm
+  simp only [Bool.and_eq_true] at ht4
+  obtain ⟨⟨⟨_, hr⟩, hpos⟩, hkw⟩ := ht4
+  have hd : dispatchSpec s argv = instantiate (namespaceOf s b) t := by
+    unfold dispatchSpec dispatchTemplate
+    rw [dtot_supported s hstd, h]
+    dsimp only
+    rw [hsel]
+    rfl
+  rw [hd]
+  rcases dtot_instantiate (namespaceOf s b) t hr (hok t htm) (dtot_evalPosX s hstd argv b h t.pos hpos)
+    (dtot_evalKwX s hstd argv b h t.kw hkw) with ⟨_, hc⟩ | ⟨hne, he⟩
+  · exact Or.inl hc
+  · exact Or.inr ⟨he, t, htm, hne⟩
+
+/-- (c′) totality beyond `totalClass`: for the sub-commands of `totalClassExt` (`stone` and `vdw` included), on
+every command line of the fragment `dispatch` returns a library call or a CLIError -/
+theorem dispatchSpec_total_ext (s : CliSpec) (ht : totalClassExt s = true) (argv : List String)
+    (hf : inFragment s argv = true) :
+    (∃ c, dispatchSpec s argv = .ok c) ∨ dispatchSpec s argv = .error .cliError := by
+  have hstd := dtot_totalClassExt_std s ht
+  rcases parseArgs_total s hstd argv hf with ⟨b, hb⟩ | he
+  · rcases dtot_dispatch_okX s ht argv b hb with h | h
+    · exact Or.inl h
+    · exact Or.inr h.1
+  · exact Or.inr (dtot_dispatch_err s hstd argv _ he)
+
+/-- … and when no path of the helper raises, the CLIError can only come from the parser -/
+theorem dispatchSpec_error_iff_parse_error_ext (s : CliSpec) (ht : totalClassExt s = true)
+    (hnr : s.templates.all (fun t => t.raises == "") = true) (argv : List String) :
+    dispatchSpec s argv = .error .cliError ↔ parseArgs s argv = .error .cliError := by
+  have hstd := dtot_totalClassExt_std s ht
+  cases hp : parseArgs s argv with
+  | error e =>
+    rw [dtot_dispatch_err s hstd argv e hp]
+    constructor <;> intro h <;> cases h <;> rfl
+  | ok b =>
+    rcases dtot_dispatch_okX s ht argv b hp with ⟨c, hc⟩ | ⟨_, t, htm, hne⟩
+    · rw [hc]
+      constructor <;> intro h <;> cases h
+    · have := List.all_eq_true.1 hnr t htm
+      exact absurd (by simpa using this) hne
+
+/-! #### the extended class contains `totalClass` -/
+
+theorem dtot_guardTotal_X (s : CliSpec) (g : Expr) (h : guardTotal s g = true) :
+    ∀ known, dtot_guardTotalX s g known = true := by
+  induction g with
+  | and x y ihx ihy =>
+    intro known
+    simp only [guardTotal, Bool.and_eq_true] at h
+    simp only [dtot_guardTotalX, Bool.and_eq_true]
+    exact ⟨ihx h.1 _, ihy h.2 _⟩
+  | not e ih =>
+    intro known
+    simp only [guardTotal] at h
+    simp only [dtot_guardTotalX]
+    exact ih h _
+  | cmp op x y _ _ => simp [guardTotal] at h
+  | _ => intro known; simpa [dtot_guardTotalX] using h
+
+theorem dtot_argTotal_X (s : CliSpec) (e : Expr) (h : argTotal s e = true) : dtot_argTotalX s e = true := by
+  cases e with
+  | star e' => simp [argTotal] at h
+  | _ => simpa [dtot_argTotalX] using h
+
+theorem dtot_pathsExhaustive_X (ts : List CallTemplate) (h : pathsExhaustive ts = true) :
+    dtot_pathsExhaustiveX ts = true := by
+  match ts, h with
+  | [], h => simpa [dtot_pathsExhaustiveX] using h
+  | [_], h => simpa [dtot_pathsExhaustiveX] using h
+  | [_, _], h => simpa [dtot_pathsExhaustiveX] using h
+  | [_, _, _], h => simp [pathsExhaustive] at h
+  | _ :: _ :: _ :: _ :: _, h => simp [pathsExhaustive] at h
+
+/-- the extended class contains `totalClass` -/
+theorem totalClass_totalClassExt (s : CliSpec) (ht : totalClass s = true) : totalClassExt s = true := by
+  unfold totalClass at ht
+  unfold totalClassExt
+  simp only [Bool.and_eq_true, List.all_eq_true] at ht ⊢
+  obtain ⟨⟨hstd, hall⟩, hpe⟩ := ht
+  refine ⟨⟨hstd, fun t htm => ?_⟩, dtot_pathsExhaustive_X _ hpe⟩
+  obtain ⟨⟨⟨h1, h2⟩, h3⟩, h4⟩ := hall t htm
+  exact ⟨⟨⟨dtot_guardTotal_X s _ h1 _, h2⟩, fun e he => dtot_argTotal_X s e (h3 e he)⟩,
+    fun p hp => dtot_argTotal_X s p.2 (h4 p hp)⟩
+
+/-- every sub-command with standard options is in the extended class: `dispatchSpec` is total on all of them -/
+theorem standard_commands_totalClassExt : (cliSpecs.filter (·.standard)).all totalClassExt = true := by
+  decide +kernel
 
 end Cnfgen.Cli
